@@ -12,125 +12,216 @@ Definition show_fres (r : fres) : string :=
   end.
 Definition check (rs : list rune) : string := digest (show_fres (format_res rs)).
 Definition full (rs : list rune) : string := show_fres (format_res rs).
-Eval vm_compute in ("<<<M3651>>>" ++ check (runes_of_ascii "options {
-    ArrayPrefixLenType = u16;
-    FixedStringPadFromLeft = true;
-    JavaPackage = ""com.example.msg"";
-    GoPackage = ""msg"";
-    GoModule = ""example.com/msg"";
+Eval vm_compute in ("<<<M4106>>>" ++ check (runes_of_ascii "packet
+metadata{
+	zchar[
+
+    10]
+
+    i64_
+    `say ""hi""`
+
+    ,	repeat	// " ++ [27880; 37322]%N ++ runes_of_ascii "
+	Header
+	// a // b
+	  // " ++ [128512]%N ++ runes_of_ascii " emoji
+  uint8x	, @lengthOf(
+falsey )int8 _x
+@calculatedFrom(""x y""
+	)
+
+    `{ , }` // c
+    , 
+stringy
+    metadata 
+`a\` // " ++ [128512]%N ++ runes_of_ascii " emoji
+  , // " ++ [128512]%N ++ runes_of_ascii " emoji
+	@lengthOf( 
+Packet
+
+    ) i64_	{ 
+match
+
+crc
+
+    as Header {
+	[
+0
+	, 0123456789 
+]
+: 	 // c
+    Foo ,
+
+""abc"" 
+// trailing space 
+  // @lengthOf(
+    :pack
+, }
+
+, match
+
+    int
+as
+
+charz{
+
+    1
+	    /// triple
+
+:packetx ,
+	7
+
+:  MetaDataX 
+,// " ++ [128512]%N ++ runes_of_ascii " emoji
+    7: a1 007:zchar , 
+""CRC32"": 
+stringy
+	,
+
+[
+	""\" ++ [233]%N ++ runes_of_ascii """
+, 
+""CRC32""
+]
+
+    :
+	i8i8} 
+//
+  	//x
+	,pack 
+    /// triple
+	`doc`
+    ,tag { 
+_x
+@calculatedFrom(
+    ""CRC32""
+) 
+`
+` ,
+    repeat	asx
+`{ , }` 	 /// triple
+  , 
+i32 
+_x  //x
+    	@calculatedFrom(
+	""\n""
+
+    ) `u8 x,`
+    ,	}
+, }	,
+f32a
+@lengthOf(
+    chars  // trailing space 
+  )
+    ,
+    string Packet
+,
+@leftPad
+
+(
+' ')@lengthOf(  u8x) 	 // trailing space 
+a1// " ++ [128512]%N ++ runes_of_ascii " emoji
+    @calculatedFrom(
+""x y"")
+`doc`
+    ,options1 ,  body 
+`{ , }`
+
+,
 }
-MetaData Meta {
-    u32 SeqNum `sequence number
-more`,
-    char[8] Symbol `symbol
-more`,
-    zchar[5] ZSym `z symbol
-more`,
-    string Note,
-    Symbol AltSymbol `alias of symbol`,
-    f64 Price,
+MetaData
+Foo
+    {uint8
+
+    Z9_	`{ , }`, }  packet
+Header
+    { pack
+{  // trailing space 
+  leftPad {
+	u128 
+i64_
+
+    , zchar[
+	7 
+// @lengthOf(
+    // `tick` ""quote"" 'q'
+  ]
+i64_
+
+@calculatedFrom(
+
+""packet"" ) 	 // packet A { u8 x, }
+
+	`line1
+line2` //x
+
+,	//
+	  metadata
+Logon  ,  char[
+10 // packet A { u8 x, }
+	] asx@lengthOf( 
+uint8x  )
+
+`it's` 
+,  } /// triple
+
+	, }	, @calculatedFrom(
+""a\\"" )Logon
+
+    @lengthOf(  uint8x )  `
+`
+,
+	int64
+	msg_type,
+    metadata
+
+_x 
+// @lengthOf(
+  /// triple
+  , @leftPad
+    (
+)  trueish {
+	Header {
+        //x
+	// `tick` ""quote"" 'q'
+uint8x 
+{ char[	0123456789  ]
+	leftPad
+@calculatedFrom(
+
+""" ++ [233]%N ++ runes_of_ascii "t" ++ [233]%N ++ runes_of_ascii """ )`" ++ [28040; 24687; 31867; 22411]%N ++ runes_of_ascii "`
+
+,
+    }
+, // " ++ [128512]%N ++ runes_of_ascii " emoji
+      char[ 	 // a // b
+  1] 
+    // c
+	// packet A { u8 x, }
+	asx@calculatedFrom(
+
+    ""it's"")	,roots , 
 }
-packet Inner {
-    u8 a,
-    i16 b,
-    string c,
+	, 
 }
-packet Inner2 {
-    u8 a2,
-    char[3] c2,
+	,	zchar[
+	// " ++ [128512]%N ++ runes_of_ascii " emoji
+      255]
+    Packet 
+, 	 // `tick` ""quote"" 'q'
+	repeat
+
+    i8i8
+, repeat
+	float64 u8x,
+    @calculatedFrom(""" ++ [233]%N ++ runes_of_ascii "t" ++ [233]%N ++ runes_of_ascii """
+    ) asx  @calculatedFrom(""a\""b"")
+, 
 }
-packet Logon {
-    u8 x,
-    string user,
-    repeat u16 codes,
-}
-packet Logout {
-    u16 reason,
-}
-packet Empty {
-}
-root packet Msg {
-    u8 su8,
-    uint8 luint8,
-    u16 su16,
-    uint16 luint16,
-    u32 su32,
-    uint32 luint32,
-    u64 su64,
-    uint64 luint64,
-    i8 si8,
-    int8 lint8,
-    i16 si16,
-    int16 lint16,
-    i32 si32,
-    int32 lint32,
-    i64 si64,
-    int64 lint64,
-    f32 sf32,
-    float32 lfloat32,
-    f64 sf64,
-    float64 lfloat64,
-    char[6] fsplain,
-    @leftPad('0') char[4] fs0,
-    @rightPad('0') char[5] fs1,
-    @leftPad(' ') char[6] fs2,
-    @rightPad(' ') char[7] fs3,
-    @leftPad('\x00') char[8] fs4,
-    @rightPad('\x00') char[9] fs5,
-    @leftPad() char[10] fs6,
-    @rightPad() char[11] fs7,
-    zchar[7] fz,
-    @leftPad('0') zchar[3] fzl0,
-    string s1 `doc`,
-    char[] s2,
-    Inner,
-    Sub {
-        u8 q,
-        string w,
-        Deep {
-            u16 z,
-            repeat i32 zs,
-        },
-    },
-    repeat u8 ru8,
-    repeat u16 ru16,
-    repeat u32 ru32,
-    repeat u64 ru64,
-    repeat i8 ri8,
-    repeat i16 ri16,
-    repeat i32 ri32,
-    repeat i64 ri64,
-    repeat f32 rf32,
-    repeat f64 rf64,
-    repeat string rstr,
-    repeat char[] rstr2,
-    repeat char[3] rfs,
-    repeat zchar[3] rfz,
-    repeat Inner2,
-    repeat Grp {
-        u8 k,
-        char[2] v,
-    },
-    SeqNum,
-    SeqNum seq2,
-    repeat SeqNum seqs,
-    Symbol,
-    AltSymbol alt,
-    ZSym,
-    Note,
-    repeat Symbol syms,
-    Price px,
-    u16 MsgType,
-    u32 BodyLen @lengthOf(Body),
-    match MsgType as Body {
-        1 : Logon,
-        [2, 3] : Logout,
-        7 : Logon,
-        9 : Empty,
-    },
-    u32 Checksum @calculatedFrom(""CRC32""),
-}
-")).
+MetaData 
+  /// triple
+    roots  // packet A { u8 x, }
+	{ } ")).
 Eval vm_compute in ("<<<M1>>>" ++ check (runes_of_ascii "
 packet
 body { chars //x
@@ -236,1726 +327,1913 @@ repeatCount ,}  , // c
     ,
 }
 ")).
-Eval vm_compute in ("<<<M322>>>" ++ check (runes_of_ascii "
+Eval vm_compute in ("<<<M1098>>>" ++ check (runes_of_ascii "
 packet
-metadata {
-i8 BodyLength,
-asx `two words`  ,char[ 0123456789] asx`" ++ [28040; 24687; 31867; 22411]%N ++ runes_of_ascii "`// " ++ [128512]%N ++ runes_of_ascii " emoji
-, @tag(
-42/// triple
+    uint8x { }  MetaData
+    trueish { }root packet  tag
+{
+@calculatedFrom(	""x y"") @tag( 255 ) @calculatedFrom( ""a	b"" ) string_ Packet, repeat
+u8 roots
+    `" ++ [28040; 24687; 31867; 22411]%N ++ runes_of_ascii "`,
+roots @calculatedFrom(""it's"" ) ,
+rootA{ Foo	@calculatedFrom( ""x y"" ) `{ , }`, } , //
+match MetaDataX
+    as x_y_z  { 3  : trueish
+    // a // b
+    0
+:
+zchar , /// triple
+""" ++ [233]%N ++ runes_of_ascii "t" ++ [233]%N ++ runes_of_ascii """:crc} ,
+    roots { repeat zchar[10	] A , },
+    @leftPad (
+    '\x00'	) repeat string
+    //x
+    lengthOf ,	@tag(  0 ) u128 ,} packet body {
+    len
+    // " ++ [27880; 37322]%N ++ runes_of_ascii "
+    `crlf
+line` , @lengthOf(
+    Pad )
+    @calculatedFrom( ""\" ++ [233]%N ++ runes_of_ascii """) @leftPad //	t
+(	' ' )
+repeat float
+{  zchar[
+    // `tick` ""quote"" 'q'
+    1 ]options1 , int32
+// " ++ [128512]%N ++ runes_of_ascii " emoji
+// trailing space 
+metadata @lengthOf( f32a ) , } , match Packet as _x
+    {  255 : Header,	007 : packetx
+, [ 42
+,255
+]//	t
+: msg_type // " ++ [128512]%N ++ runes_of_ascii " emoji
+00  :lengthOf [ 3 , 65535
+    ] // c
+: string_ , ""abc"":uint8x, }, repeat x_y_z {  Foo // " ++ [27880; 37322]%N ++ runes_of_ascii "
+{ repeat
+A
+    calculatedFrom, Z9_
+    @calculatedFrom( ""it's"" ) `{ , }` ,
+    repeat u repeatCount
+, repeat u16 u8x `// not a comment` , } ,
+u32  lengthOf `
+` ,int8 rootA//
+,
+    repeat a1 { match
+    //	t
+    options1 as repeatCount{[	255 , 007 ]
+: packetx  , } ,	As { repeatCount
+u	, zchar[
+255 ] BodyLength`{ , }` ,} ,}	, } ,
+    char[4294967296
+    ]	A `" ++ [233]%N ++ runes_of_ascii "` , u8 int
+, repeat
+    Packet  { x
+    calculatedFrom `" ++ [233]%N ++ runes_of_ascii "` ,
+} , A
+    // packet A { u8 x, }
+    , Foo @lengthOf(
+matchKey )	`" ++ [233]%N ++ runes_of_ascii "`  ,
+// `tick` ""quote"" 'q'
+// a // b
+uint32
+    options1,
+    } packet calculatedFrom
+{}
+")).
+Eval vm_compute in ("<<<M4426>>>" ++ check (runes_of_ascii "packet 
+Packet
+{  @leftPad
+    // a // b
+  // a // b
+    (	' '
+
+    )
+repeat
+
+    As { repeatCount
+@calculatedFrom(""" ++ [28040; 24687]%N ++ runes_of_ascii """
+
+    )
+	,
+repeat  pack
+    {  /// triple
+x{	match
+As  as 
+uint8x
+
+{
+	[
+""1""	,
+""\" ++ [233]%N ++ runes_of_ascii """
+	,  00
+	, 
+""it's"" ,
+""a\""b""
+
+,
+""\" ++ [233]%N ++ runes_of_ascii """
+]
+
+: 
+        // " ++ [128512]%N ++ runes_of_ascii " emoji
+// packet A { u8 x, }
+pack [ ""a\""b"", """ ++ [233]%N ++ runes_of_ascii "t" ++ [233]%N ++ runes_of_ascii """
+    ,	65535
+    , 
+""a	b"", ""`tick`""	, 
+      //	t
+  //x
+  ""\n"" 
+	// " ++ [128512]%N ++ runes_of_ascii " emoji
+	// packet A { u8 x, }
+      ]:As
+    ,
+0123456789 :	float ,	/// triple
+    ""a	b""
+: x_y_z,[ 
+""abc""
+]:
+
+    stringy // trailing space 
+  }	,
+    f64
+	MetaDataX, zchar[	0123456789
+    ] 
+charz,  }
+,crc 	 // trailing space 
+      {char[]
+
+x_y_z  // c
+`
+`
+,
+	match
+Z9_ 
+as i8i8  { 
+00:  
+      // c
+    //	t
+charz ,
+	} 
+, }
+
+    ,i8  // a // b
+
+	_x ,  repeat  falsey
+
+{
+    // `tick` ""quote"" 'q'
+    	char[
+    65535 	 // a // b
+	  ]Packet
+
+@calculatedFrom(  ""x y"" )
+
+    `line1
+line2` ,  }	,
+    } ,
+	f32a// packet A { u8 x, }
+    	MetaDataX
+
+    `" ++ [233]%N ++ runes_of_ascii "` ,repeat //	t
+    	matchKey	{int32
+int `crlf
+line` ,	} 
+,
+	}
+	,  float{
+
+string
+    As`// not a comment`  , As,
+    stringy 
+,
+
+}
+	, @tag( 
+00
 )
-    repeat	charz `crlf
-line` ,
-body ,@tag( 65535  ) match
-    // " ++ [128512]%N ++ runes_of_ascii " emoji
-    Pad as x_y_z  { ""{,}"" :
-u , } ,
-    repeat Foo
-    {repeat pack {
-// `tick` ""quote"" 'q'
-// `tick` ""quote"" 'q'
-f32 calculatedFrom
-    @lengthOf( options1
+    Foo 
+,
+    repeat
+int16 Z9_, @lengthOf( 
+u8x )
+	u8x
+
+    { repeat
+
+uint64
+    asx , 
+    // packet A { u8 x, }
+
+  //
+	repeat  int 
+// packet A { u8 x, }
+    ``
+	,	char[
+
+1
+]uint8x @calculatedFrom(
+
+    ""\" ++ [233]%N ++ runes_of_ascii """
     )
 ,
-//x
+    }  , 
+x
+    ,
+
+} ")).
+Eval vm_compute in ("<<<M568>>>" ++ check (runes_of_ascii "
+options {a1= 4294967296 ;
+    //	t
+    u =	"""" BodyLength =0123456789 ;
+}
+    packet float{
+    char[ 10// trailing space 
+]
+    calculatedFrom `say ""hi""`
+,}	packet  charz
+    { u
+{
+    match string_
+    as crc {
+0 : zchar//x
+4294967296:// packet A { u8 x, }
+u 255 : falsey }
+    ,len@lengthOf(
+// a // b
 // c
-}
-, int32 Header @calculatedFrom(""a	b"")
-, char[]
-zchar
-    `
-`
-    ,
-    zchar[00 ]a1 @calculatedFrom(
-    // c
-    ""{,}"") `crlf
-line` , }
+asx )`tab	here`
+    ,o @calculatedFrom( ""\n"" ), },// " ++ [128512]%N ++ runes_of_ascii " emoji
+} options
+{  T = false ;}  packet
+calculatedFrom {
+    match u8x
+as leftPad { """ ++ [233]%N ++ runes_of_ascii "t" ++ [233]%N ++ runes_of_ascii """ //x
+:packetx , ""\n"" :lengthOf ,
+007 :
+    pack 007 :
+BodyLength
 ,
-    body zchar ,i64_ @calculatedFrom( ""a\\""  )
-, // " ++ [27880; 37322]%N ++ runes_of_ascii "
-match
-/// triple
-// " ++ [27880; 37322]%N ++ runes_of_ascii "
-zchar
-as zchar {	1 : u128
-    ,
-255
-: packetx, [""{,}"" ,""// no comment"",  0 , 65535 ,  3 ] :  u8x, 0123456789:  calculatedFrom // `tick` ""quote"" 'q'
-, 10 : Header	,
-}
-    ,
-}packet string_
-{ @tag( 10 ) T, @calculatedFrom(""CRC32""//	t
-)@lengthOf(charz )@lengthOf(
-zchar) zchar[
-42
-    ] // a // b
-a1 `" ++ [233]%N ++ runes_of_ascii "` , int32 x `two words` //
-, float32 repeatCount ,
-    //
-    @lengthOf(
-    Packet) @rightPad('0'	) // @lengthOf(
-@calculatedFrom(""a\""b"") zchar[ 0 ]	repeatCount @lengthOf(
-BodyLength  ) // trailing space 
-, float,
-repeat
-zchar
-// trailing space 
+    ""a\\""  :
+charz}
+, @tag(
+    7 // trailing space 
+)body { repeat char[
+7 ]// packet A { u8 x, }
+_x`" ++ [28040; 24687; 31867; 22411]%N ++ runes_of_ascii "` , } ,	@tag(// " ++ [128512]%N ++ runes_of_ascii " emoji
+42 )string  tag `crlf
+line`	,  @tag( // " ++ [27880; 37322]%N ++ runes_of_ascii "
+00 )repeat char[	0  ] calculatedFrom `tab	here`, u16 Z9_ @calculatedFrom( ""{,}"" ) ,
 //x
-,} root packet body
-{  @lengthOf(msg_type) repeat
-    u128 {// trailing space 
-char[
+//x
+@calculatedFrom(
+    ""\" ++ [233]%N ++ runes_of_ascii """ )
+    match	Logon
+    // @lengthOf(
+    as Z9_ {
+[
+""1""
+    //	t
+    , // c
+""1""	] :
+    options1 } ,
+T
+    metadata ,_x {
+    // @lengthOf(
+    f32 x
+    , int64
+a1
+//x
+// " ++ [27880; 37322]%N ++ runes_of_ascii "
+@lengthOf(_x
+    )`u8 x,` , uint8x { _x	@lengthOf(
+charz ) // `tick` ""quote"" 'q'
+, int64// @lengthOf(
+trueish
+    ,  char[0	]
+// `tick` ""quote"" 'q'
+// c
+roots @calculatedFrom( ""// no comment"")
+    `crlf
+line` , u ,}
+    , } , }
+")).
+Eval vm_compute in ("<<<M3614>>>" ++ check (runes_of_ascii "packet Frame
+    // c1
+{ // c2a
+  // c2b
+u8
+    // c3
+HK
+    // c4
+, // c5a
+  // c5b
+u8 BK
+    // c7
+, u8 TK
+    // c10
+, // c11a
+  // c11b
+match // c12
+HK // c13
+as // c14
+Hdr // c15a
+  // c15b
+{
+    // c16
+1 // c17
+: HdrA , // c20a
+  // c20b
+2
+    // c21
+: // c22
+HdrB // c23a
+  // c23b
+, } // c25
+,
+    // c26
+match
+    // c27
+BK // c28a
+  // c28b
+as Body // c30a
+  // c30b
+{
+    // c31
+1 // c32a
+  // c32b
+:
+    // c33
+BodyA // c34a
+  // c34b
+, // c35
+2 : // c37a
+  // c37b
+BodyB
+    // c38
+,
+    // c39
+} , // c41
+match
+    // c42
+TK
+    // c43
+as
+    // c44
+Trl {
+    // c46
+1 : TrlA // c49
+, } // c51a
+  // c51b
+, // c52
+} // c53
+packet HdrA // c55
+{ u8
+    // c57
+a ,
+    // c59
+} packet
+    // c61
+HdrB // c62
+{ u16
+    // c64
+b // c65a
+  // c65b
+, } // c67a
+  // c67b
+packet // c68
+BodyA // c69a
+  // c69b
+{
+    // c70
+u32 c
+    // c72
+,
+    // c73
+}
+    // c74
+packet
+    // c75
+BodyB // c76
+{
+    // c77
+u64 d
+    // c79
+, // c80
+}
+    // c81
+packet
+    // c82
+TrlA // c83a
+  // c83b
+{ u8 e
+    // c86
+, } root // c89a
+  // c89b
+packet
+    // c90
+Msg // c91a
+  // c91b
+{ Frame , u8 // c95a
+  // c95b
+x // c96a
+  // c96b
+, } // c98
+")).
+Eval vm_compute in ("<<<M719>>>" ++ check (runes_of_ascii "packet x
+{ @tag(
+//x
+// a // b
+3
+    )@calculatedFrom( // `tick` ""quote"" 'q'
+""1"") @calculatedFrom( // packet A { u8 x, }
+""{,}"" )
+    o	uint8x , repeat
+    zchar[
+    4294967296
+    // " ++ [128512]%N ++ runes_of_ascii " emoji
+    ] Packet ,
+repeat trueish	{uint16
+a1  ,
+    char[]
+matchKey ,
+    float { uint64 A	@calculatedFrom(""`tick`""
+// c
+//x
+)
+    ,
+} ,
+int32
+tag , }
+    , @leftPad
+    ( ) Foo{leftPad @calculatedFrom( ""{,}"" ) , //x
+} , @lengthOf( Z9_ )uint64 pack ,
+    }	options {roots
+=65535 ;  falsey =
+10 ; //x
+x_y_z =
+    ' ' ;
+    MetaDataX =// `tick` ""quote"" 'q'
+false
+    ; }options { crc
+    =true ;string_
+    = false;leftPad = ' ' ;i8i8 =
+    // c
+    '0' ; }root packet
+    string_ { u16
+    // trailing space 
+    rootA
+    @lengthOf( lengthOf ) `" ++ [233]%N ++ runes_of_ascii "`  ,@lengthOf( chars) @lengthOf( stringy)	@lengthOf( falsey	)
+string
+    Header @calculatedFrom( ""1"" ) ,
+@calculatedFrom( ""a\""b"")
+@calculatedFrom(
+    ""`tick`"" ) @tag(  65535 )
+    uint8
+//
+// " ++ [27880; 37322]%N ++ runes_of_ascii "
+f32a , @leftPad () zchar[42 // trailing space 
+] a1 @calculatedFrom(""""// " ++ [128512]%N ++ runes_of_ascii " emoji
+)
+,
+// a // b
+// a // b
+} options{ len  =  7 ; }
+")).
+Eval vm_compute in ("<<<M3745>>>" ++ check (runes_of_ascii "options { 
+Foo = 
+      // trailing space 
+	""\" ++ [233]%N ++ runes_of_ascii """roots
+=	""`tick`"" 
+
+// trailing space 
+//	t
+;
+
+crc=
+""packet"" 
+;	falsey
+
+= 	 // a // b
+1  float	= u32  ;
+}
+packet options1{
+match Header
+    as Packet {	[
+    ""abc""	]	:	Header
+	,""`tick`""  :
+
+i64_ 
+,
+    [
+	7	, 
+    /// triple
+
+//x
+      """"
+,
+3
+
+]  :
+	Z9_
+
+    , [""// no comment"" 
+, ""x y"" 
+,
+
+""" ++ [28040; 24687]%N ++ runes_of_ascii """ ,
+
+    1
+    ,
+	""a	b"" ]
+
+    :  x_y_z
+
+    ,""a\""b""
+	:
+float 	 // c
+	}  ,	// @lengthOf(
+	i8i8  _x	, @rightPad( '\x00'
+) 
+zchar[ 0
+
+]
+
+    string_
+    ,  }packet
+	u8x
+{
+    @lengthOf( packetx ) 
+char[ 
+42 ]
+    // `tick` ""quote"" 'q'
+	_x
+,  f64 
+matchKey
+
+`it's`
+,
+	match
+
+    repeatCount 
+as
+
+roots  {
+    // packet A { u8 x, }
+	// " ++ [27880; 37322]%N ++ runes_of_ascii "
+    	[  ""CRC32""	,	""" ++ [128512]%N ++ runes_of_ascii """
+]	: 
+i8i8
+	,}
+,  
+      // " ++ [27880; 37322]%N ++ runes_of_ascii "
+	@lengthOf(
+	len)
+@rightPad
+(' '
+
+    )
+u  stringy
+`say ""hi""` , 	 // @lengthOf(
+
+  repeat 
+char[7 ] 
+pack
+`" ++ [28040; 24687; 31867; 22411]%N ++ runes_of_ascii "`
+,
+    @tag(42	)
+
+    string
+    u8x  `// not a comment`,	}	root packet	As
+    {
+int32 x @calculatedFrom(
+    ""\n"" )
+,
+
+    }
+")).
+Eval vm_compute in ("<<<M154>>>" ++ check (runes_of_ascii "options { } packet
+    //	t
+    falsey /// triple
+{	i64 calculatedFrom
+    @calculatedFrom(
+    //
+    ""a\\"" )
+`it's` ,
+char[ 00 ] falsey ,	@calculatedFrom(""1"" ) @calculatedFrom( ""{,}""
+    )
+i32	float	,@tag(3 //
+)
+    @calculatedFrom(  ""CRC32"" ) int64 options1 @lengthOf(roots ) `two words` , @calculatedFrom(""a\\""	) repeat trueish { repeat charz
+,trueish // trailing space 
+tag //x
+`two words` ,
+repeat u64 Logon  `" ++ [28040; 24687; 31867; 22411]%N ++ runes_of_ascii "`,},
+    @leftPad(
+    //x
+    '0'
+)// " ++ [128512]%N ++ runes_of_ascii " emoji
+@rightPad (
 // " ++ [128512]%N ++ runes_of_ascii " emoji
 //
-0123456789 ]options1
-,
-}	, //	t
-f64
-    u128`it's`	,// @lengthOf(
-repeat  i64 charz ,
-@calculatedFrom( """ ++ [128512]%N ++ runes_of_ascii """ )
-    repeat char
-    roots, } packet
-metadata // @lengthOf(
-{ // trailing space 
-@lengthOf( // packet A { u8 x, }
-BodyLength ) @tag( 4294967296  ) f32a
-A
-, } MetaData u128 { } //")).
-Eval vm_compute in ("<<<M1155>>>" ++ check (runes_of_ascii "packet u128 {
-// packet A { u8 x, }
-// c
-@rightPad (
-' ')uint8x { zchar {
-match u8x
-as
-Logon {007 // @lengthOf(
-: Packet
-    //x
-    , [ 255 ,
+' ' )
+//	t
 //
-//x
-""`tick`"" ,00 , 42 ,
-""a\\""
-    ,	3 ] :
+u roots,repeat
+A	{i32 int
+@lengthOf( zchar
+)`" ++ [233]%N ++ runes_of_ascii "`
+    ,
+    }//	t
+, u64 A , @tag( 10 ) char[]
+u8x, zchar[
+10 ] pack
+//
+// " ++ [27880; 37322]%N ++ runes_of_ascii "
+@calculatedFrom(""1"" ) `say ""hi""` ,	} packet Z9_//	t
+{// " ++ [27880; 37322]%N ++ runes_of_ascii "
+@leftPad( '0')  repeat
+// a // b
 // @lengthOf(
-// a // b
-int ,},  metadata `" ++ [28040; 24687; 31867; 22411]%N ++ runes_of_ascii "` ,
-repeat char[]Header
-    , a1, }
-, match // packet A { u8 x, }
-leftPad as rootA{
-0123456789 : int,0 : pack, }, tag { // " ++ [27880; 37322]%N ++ runes_of_ascii "
-string_ ,
-    pack calculatedFrom  , },// packet A { u8 x, }
-} ,
-    //x
-    zchar[
-255] msg_type , i32// c
-x, match options1 // @lengthOf(
-as
-    options1 {  10// @lengthOf(
-: //
-zchar,
-42 : pack ,
-[  ""a\\"" ] :
-    // @lengthOf(
-    As [42
-,
-    ""a\""b"" ] : asx
-, [
-    10 ] :a1 ,
-[
-    00]
-:
-    // trailing space 
-    chars
+As charz
+, body @calculatedFrom( ""it's""
+    )`crlf
+line` ,
     // " ++ [27880; 37322]%N ++ runes_of_ascii "
-    , } ,
-// `tick` ""quote"" 'q'
-//	t
-char[0] Header @lengthOf(
-chars) // @lengthOf(
-`it's` ,
-//
-//	t
-match//	t
-x_y_z as
-    u8x {  65535 : Logon
-    ,""" ++ [233]%N ++ runes_of_ascii "t" ++ [233]%N ++ runes_of_ascii """ :
-Header ,
-    ""a	b"":
-metadata ,	[
-    255,
-""a\\""
-// a // b
-// c
-, ""a	b""
-, //x
-1 , ""{,}"" , """",255 , """ ++ [28040; 24687]%N ++ runes_of_ascii """ ]: f32a
-//	t
-// c
-, 3	:
-len // @lengthOf(
-}, @leftPad
-( ) @calculatedFrom( ""a\\"") int64 leftPad
-`" ++ [233]%N ++ runes_of_ascii "` , @calculatedFrom( ""packet"" )
-    @tag(
-10 )  @calculatedFrom(""a\\"" ) string Packet
-    @lengthOf( BodyLength ),//x
-@leftPad ( // @lengthOf(
-'0' )repeat
-char[]
-//	t
-// trailing space 
-Logon
-,
-@tag( 00
-) match
-u8x as Z9_ {
-[ 10 ] : lengthOf
-    0123456789 : _x, ""packet"" : i64_, } , }")).
-Eval vm_compute in ("<<<M1389>>>" ++ check (runes_of_ascii "options {
-	StringPrefixLenType = u16;
-	ArrayPrefixLenType = u16;
-}
-
-packet SampleBinary {
-    uint16 MsgType `" ++ [28040; 24687; 31867; 22411]%N ++ runes_of_ascii "`,
-    u16 BodyLenght @lengthOf(Body) `" ++ [28040; 24687; 20307; 38271; 24230]%N ++ runes_of_ascii "`,
-    match MsgType as Body {
-        1 : Logon,
-        2 : Logout,
-        3 : Heartbeat,
-        4 : RiskControlRequest,
-        5 : RiskControlResponse,
-    },
-        @calculatedFrom(""CRC32"")
-    u32 Ckecksum `" ++ [26657; 39564; 21644]%N ++ runes_of_ascii "`,
-}
-
-packet Logon {
-     @leftPad('0')
-    char[10] UserName `" ++ [29992; 25143; 21517]%N ++ runes_of_ascii "`,
-    string Password `" ++ [23494; 30721]%N ++ runes_of_ascii "`,
-    uint64 ClientId `" ++ [23458; 25143; 31471]%N ++ runes_of_ascii "ID`,
-    u16 HeartbeatInterval `" ++ [24515; 36339; 38388; 38548]%N ++ runes_of_ascii "`,
-}
-
-packet Logout {
-      @rightPad('0')
-    char[10] UserName `" ++ [29992; 25143; 21517]%N ++ runes_of_ascii "`,
-    uint64 ClientId `" ++ [23458; 25143; 31471]%N ++ runes_of_ascii "ID`,
-}
-
-packet Heartbeat {
-}
-
-packet RiskControlRequest {
-    string UniqueOrderId `" ++ [21807; 19968; 35746; 21333; 21495]%N ++ runes_of_ascii "`,
-    char[16] ClOrdID `" ++ [23458; 25143; 35746; 21333; 21495]%N ++ runes_of_ascii "`,
-    char[3] MarketID `" ++ [24066; 22330]%N ++ runes_of_ascii "id`,
-    char[12] SecurityID `" ++ [35777; 21048; 20195; 30721]%N ++ runes_of_ascii "`,
-    char Side `" ++ [20080; 21334; 26041; 21521]%N ++ runes_of_ascii "`,
-    char OrderType `" ++ [35746; 21333; 31867; 22411]%N ++ runes_of_ascii "`,
-    u64 Price `" ++ [20215; 26684]%N ++ runes_of_ascii "`,
-    u32 Qty `" ++ [25968; 37327]%N ++ runes_of_ascii "`,
-    repeat string ExtraInfo `" ++ [38468; 21152; 20449; 24687]%N ++ runes_of_ascii "`,
-    repeat SubOrder {
-    		char[16] ClOrdID `" ++ [23376; 35746; 21333; 21495]%N ++ runes_of_ascii "`,
-    		u64 Price `" ++ [23376; 35746; 21333; 20215; 26684]%N ++ runes_of_ascii "`,
-    		u32 Qty `" ++ [23376; 35746; 21333; 25968; 37327]%N ++ runes_of_ascii "`,
-    	},
-}
-
-packet RiskControlResponse {
-    string UniqueOrderId `" ++ [21807; 19968; 35746; 21333; 21495]%N ++ runes_of_ascii "`,
-    i32 Status `" ++ [29366; 24577]%N ++ runes_of_ascii "`,
-    string Msg `" ++ [32467; 26524; 20449; 24687]%N ++ runes_of_ascii "`,
-    repeat Detail,
-}
-
-packet Detail {
-    string RuleName `" ++ [35268; 21017; 21517; 31216]%N ++ runes_of_ascii "`,
-    u16 Code `" ++ [21407; 22240; 20195; 30721]%N ++ runes_of_ascii "`,
-}")).
-Eval vm_compute in ("<<<M3824>>>" ++ check (runes_of_ascii "options {
-    StringPrefixLenType = u16;
-    ArrayPrefixLenType = u8;
-    FixedStringPadFromLeft = true;
+    @leftPad ('0'
+) zchar[ 4294967296 ]
+A @calculatedFrom(""packet""
+    // trailing space 
+    ) `" ++ [233]%N ++ runes_of_ascii "`  , repeat body
+    Header`" ++ [233]%N ++ runes_of_ascii "`,}
+")).
+Eval vm_compute in ("<<<M4493>>>" ++ check (runes_of_ascii "options {
+    LittleEndian = false;
+    FixedStringPadFromLeft = false;
     FixedStringPadChar = ' ';
 }
 
+packet Fill {
+    uint16 Qty,
+    uint64 clOrdID,
+    repeat i64 Flags,
+}
+
+packet Ack {
+    zchar[7] clOrdID,
+    u64 lastPx,
+    char[] Note,
+    repeat Fill,
+    int32 count,
+}
+
 packet Quote {
-    int64 OrderId,
-    char[] Ref,
-    @leftPad('0')
-    char[5] price,
+    u8 venue,
+    InRef40 {
+        char[] Qty,
+    },
+    zchar[5] Flags,
+    @rightPad('\x00')
+    char[12] msgKind,
 }
 
-packet Heartbeat {
-    zchar[3] venue,
-    string Flags,
-}
-
-packet Trade {
-    repeat InTag787 {
-        i32 venue,
-        char[5] sym,
-        repeat InPx98 {
-            char[11] Qty,
-            Heartbeat,
-            char[] price,
-            u32 x,
-            float64 count,
-            repeat Quote,
+packet Logout {
+    InSym79 {
+        int32 Qty,
+        Fill,
+        char[3] x,
+        repeat InNote29 {
+            i16 price,
+            Ack,
+            f64 x,
+            zchar[8] count,
         },
-        zchar[7] Note,
-        repeat char[1] Tail,
     },
-    repeat char[2] seqNo,
-    InTail55 {
-        repeat Quote,
-        string msgKind,
-        InPx18 {
-            char[] count,
-            repeat Quote,
-            uint16 Qty,
-        },
-        char[4] seqNo,
-        repeat Heartbeat,
-        repeat string sym,
-    },
-    repeat Quote,
-    Heartbeat,
-    @leftPad(' ')
-    char[10] OrderId,
 }
 
-root packet Fill {
-    Heartbeat,
-    uint32 count,
-    u8 OrderId,
-    match OrderId as Body {
-        96 : Quote,
-        195 : Trade,
-        187 : Heartbeat,
+root packet Logon {
+    zchar[1] sym,
+    u32 count,
+    u16 tag7 @lengthOf(Body),
+    match count as Body {
+        [122, 152] : Ack,
+        118 : Logout,
+        61 : Quote,
+        161 : Fill,
     },
-    u32 venue @calculatedFrom(""CRC32""),
+    u32 Acct @calculatedFrom(""CR\
+    C32""),
 }")).
-Eval vm_compute in ("<<<M477>>>" ++ check (runes_of_ascii "
-MetaData
-    asx
-// a // b
-/// triple
-{
-char[]	Z9_ // " ++ [128512]%N ++ runes_of_ascii " emoji
-`doc` , }
-    packet roots { a1 @lengthOf( string_ ) ,	char[ 0123456789 ] Logon`
-` , // " ++ [128512]%N ++ runes_of_ascii " emoji
-@calculatedFrom(
-""`tick`""  )
-i64 u128
-    //
-    , i32 matchKey
-    `doc` ,match asx as pack { /// triple
-[ 0 ] : x_y_z
-0123456789 :float,
-00 : packetx
-65535 : crc
-,	4294967296
-    :a1 } , falsey
-float ,  @calculatedFrom(""CRC32"") // " ++ [128512]%N ++ runes_of_ascii " emoji
-@lengthOf( body ) @lengthOf( MetaDataX )// @lengthOf(
-leftPad
-@calculatedFrom( """ ++ [28040; 24687]%N ++ runes_of_ascii """
+Eval vm_compute in ("<<<M4126>>>" ++ check (runes_of_ascii "root packet u128
+
+    { 
+@calculatedFrom( ""// no comment"")
+    @tag(
+	10 	 //	t
 )
-`// not a comment`,
-    uint8 packetx @calculatedFrom( ""a	b"")// packet A { u8 x, }
-,}  packet
-    Logon	{
-    } packet zchar { /// triple
-Z9_
-{ repeat i8 Foo	,	f64
-    // " ++ [128512]%N ++ runes_of_ascii " emoji
-    falsey
-`tab	here` // " ++ [27880; 37322]%N ++ runes_of_ascii "
-,
-match  msg_type as As{
-255: roots
-, [ 4294967296, 7
-    , ""`tick`""
-, 65535	] :
-metadata, """ ++ [233]%N ++ runes_of_ascii "t" ++ [233]%N ++ runes_of_ascii """: x_y_z ""`tick`"" : x_y_z , [
-    42 , ""CRC32"" , //x
-""// no comment"",  0123456789	, ""// no comment"" , ""CRC32"" ,	""" ++ [128512]%N ++ runes_of_ascii """ ,
-    ""{,}"" //
-]:packetx, } , o@lengthOf(
-msg_type ) `it's` , }	,	@calculatedFrom( """ ++ [28040; 24687]%N ++ runes_of_ascii """ )
-uint64 x
-`crlf
-line` , zchar[
-7 ]
-Logon , repeat rootA matchKey `crlf
-line` ,} // " ++ [27880; 37322]%N)).
-Eval vm_compute in ("<<<M4479>>>" ++ check (runes_of_ascii "// @lengthOf(
-packet BodyLength {
-    char T,
-}
 
-root packet A {
-    repeat len `say ""hi""`,
-    repeat Pad {
-        repeat char[] stringy,
-        repeat rootA {
-            uint64 Foo @lengthOf(options1) `it's`,
-            //x
-            /// triple
-            zchar {
-                zchar[42] Z9_,
-                repeat o i8i8,
-                uint8 x `it's`,
-                rootA Foo `{ , }`,
-            },
-        },
-        metadata @calculatedFrom(""a	b""),
-    },
-    @tag(1)
-    string u `doc`,
-    u @calculatedFrom(""it's"") ``,
-    char[7] packetx @lengthOf(A) `{ , }`,
-    string _x `
-    `,
-    float32 _x,
-    repeat char[42] rootA `doc`,
-}
+@calculatedFrom(
 
-MetaData matchKey {
-    zchar[0123456789] falsey ``,
-}
-
-packet Logon {
-    @lengthOf(zchar)
-    match leftPad as falsey {
-        3 : Packet,
-        007 : zchar,
-        1 : float,
-        ""it's"" : body,
-        ""CRC32"" : body,
-    },
-    @calculatedFrom(""{,}"")
-    zchar[1] i8i8 @lengthOf(uint8x),
-    zchar[00] a1,
-    uint64 u,
-    string Packet @calculatedFrom(""packet""),
-}")).
-Eval vm_compute in ("<<<M3632>>>" ++ check (runes_of_ascii "
-
-  options  {
-	StringPrefixLenType =	u64
-; ArrayPrefixLenType =
-	u16
-
-;
-    FixedStringPadChar  =
-	' '
-
-    ; }	packet
-Logon
-	{i32
-	msgKind
-
-    , 
+""packet""
+	)  BodyLength``	,
+char 
+BodyLength`two words` 
+, repeat
+	uint32 
+f32a 	 // trailing space 
+  ,crc
+	{ 
 repeat
-InOrderid65
-{	u8
+repeatCount
+Packet,
+	MetaDataX @lengthOf( 
+chars	)  ,
 
-pad0  ,
-    }
-	, i8
-	tag7
+options1
+    _x, 
+repeat  float64
+    T//x
     ,
-	@leftPad
-    ( 
-' ' )char[ 12 ]
+} , 
+@tag(  3 )  @leftPad
+	(
 
-x
+'\x00'
+
+    )@rightPad
+( 
+    // @lengthOf(
+  /// triple
+    )
+    match  string_ as
+
+MetaDataX 
+{
+    ""packet"": float
+
+,[ ""abc""// @lengthOf(
+  ,  """" 
+      // packet A { u8 x, }
 ,
-	}
-    packet  Leg
+3,
+	    //x
+    65535
+    ,	""a	b""
+,//	t
+	42, 1 ,
+""packet""]: 
+i64_
+        // `tick` ""quote"" 'q'
+		/// triple
+	,
+    // " ++ [27880; 37322]%N ++ runes_of_ascii "
+
+  // trailing space 
+7	:
+
+lengthOf
+0
+:
+len 
+
+// trailing space 
+      // packet A { u8 x, }
+  	, 
+10
+:
+
+    len	,
+    [ 	 //	t
+    0
+
+    ] :A 
+//	t
+, }
+, } ")).
+Eval vm_compute in ("<<<M977>>>" ++ check (runes_of_ascii "packet
+MetaDataX {zchar[4294967296
+] o @calculatedFrom(
+""" ++ [233]%N ++ runes_of_ascii "t" ++ [233]%N ++ runes_of_ascii """
+// packet A { u8 x, }
+// `tick` ""quote"" 'q'
+) , @tag( 65535 ) @leftPad /// triple
+(' ' )uint16 pack , char[]
+charz  , zchar //
+metadata , match  i64_
+as asx { 0 :BodyLength , [
+""" ++ [28040; 24687]%N ++ runes_of_ascii """ ] :	options1 , ""x y"" :
+    matchKey ,""x y"": msg_type// " ++ [128512]%N ++ runes_of_ascii " emoji
+}, @calculatedFrom(
+""a\\"")match repeatCount as zchar { 007 :// a // b
+crc
+[
+""" ++ [233]%N ++ runes_of_ascii "t" ++ [233]%N ++ runes_of_ascii """
+    ,""" ++ [28040; 24687]%N ++ runes_of_ascii """ , ""it's"" ] : roots , } // a // b
+, char[ 3]falsey `say ""hi""` , @calculatedFrom( ""a	b"") calculatedFrom Header ,repeat
+    tag {stringy@calculatedFrom( ""\n""
+),
+match chars	as x_y_z { //	t
+42 :
+    repeatCount """ ++ [28040; 24687]%N ++ runes_of_ascii """	:pack
+, /// triple
+}
+    ,
+    char[ 3 ]x_y_z@lengthOf(//
+body
+) `two words` ,
+o { repeat zchar[ 00 ] matchKey
+    ,	repeat char[
+1 ]
+repeatCount  `it's` // " ++ [128512]%N ++ runes_of_ascii " emoji
+,} , } , }")).
+Eval vm_compute in ("<<<M206>>>" ++ check (runes_of_ascii "options{ }root // a // b
+packet
+    uint8x {  @tag( 3 ) @lengthOf(  falsey ) lengthOf @calculatedFrom(
+""`tick`"" ), A { i8 msg_type
+`crlf
+line` ,
+Foo @lengthOf( u8x
+) ,float ,
+    //
+    }
+, string // a // b
+lengthOf
+@calculatedFrom(	""abc"" )
+, @lengthOf(charz )
+    repeat string_	{// " ++ [128512]%N ++ runes_of_ascii " emoji
+zchar[
+    0
+    // a // b
+    ] T @calculatedFrom( ""a\\"" ) //	t
+, zchar[
+    42 ] repeatCount @lengthOf(
+Z9_ )`u8 x,`,}
+,  zchar[1
+    ]
+crc @calculatedFrom( // " ++ [27880; 37322]%N ++ runes_of_ascii "
+""// no comment"" )
+    `it's`
+    // `tick` ""quote"" 'q'
+    , @calculatedFrom(""{,}"")
+    tag
+int//
+, //x
+}
+MetaData f32a { // trailing space 
+i64 int // c
+,string int
+    , // c
+asx
+    //x
+    Pad
+    //x
+    `crlf
+line` , string lengthOf,
+    uint32
+pack ,// " ++ [27880; 37322]%N ++ runes_of_ascii "
+msg_type
+    u `it's` ,
+}")).
+Eval vm_compute in ("<<<M3773>>>" ++ check (runes_of_ascii "//x
+
+packet _x
+    {repeat
+	charz
+	{
+
+repeat
+asx,  //x
+  string metadata , //x
+		uint64
+a1	@calculatedFrom(
+""it's""
+    )
+`a\`
+,
+
+    } ,
+@rightPad //
+  ( )
+
+    msg_type
+len
+``,
+MetaDataX
+asx	// " ++ [128512]%N ++ runes_of_ascii " emoji
+  ,
+
+    @rightPad
+
+(
+
+'\x00'
+
+) zchar[3
+
+    ]int	, }
+	packet 
+Packet 
+{ @leftPad (
+    ) string_
 
 {
-
-char[]  f1
-
-    ,repeat char[
-
-    5]  Px	,
-	InQty34{
-    repeat char[
-	6 ] Qty , char[7] seqNo
-, 
-string count	,
-    }
-
-    ,Logon ,
-
-}
-    packet
-
-    Party  {
-
-@leftPad
-
-    (
-'0' )	char[
-
-10]	OrderId 
-,string	Tail
-
-    ,	}
-
-    packet
-
-    Fill{ zchar[
-	5
-]  venue	, 
-zchar[3
-]	clOrdID, InRef95{ InLastpx25	{
-    u8  pad0
-    ,	} , float64
-
-    OrderId 
-, i32 f1
-    ,  float32 x
-	,
-    char[]	seqNo,}
-
-,
 	repeat
 
-string
-	seqNo, }root
-    packet Heartbeat {
+calculatedFrom  // a // b
+	`it's`
 
-repeat
-Leg,u32
-seqNo , u16 tag7
-, u32
-Flags
-@lengthOf(  Body )
-
-    ,  match tag7
-
-as Body{[
-    195 ,  75
-	] :
-    Party ,
-171:Fill 
-, 78
-
-:
-	Logon
-    ,  142 
-:
-Leg , }
 ,
-u32 
-Note @calculatedFrom( ""CRC32"" )
-    ,
+
     }
-")).
-Eval vm_compute in ("<<<M1057>>>" ++ check (runes_of_ascii "
-packet
-// c
-// @lengthOf(
-int{ @lengthOf( //
-pack
-    ) f64 asx @calculatedFrom( ""abc"" )
-    , @calculatedFrom( ""\" ++ [233]%N ++ runes_of_ascii """ ) f64 //	t
-u
-`// not a comment`
-,// " ++ [128512]%N ++ runes_of_ascii " emoji
-@lengthOf( stringy) @tag( 3 )
-    @rightPad  ()repeat float32
-    rootA , msg_type@lengthOf(
-    packetx
-    // " ++ [27880; 37322]%N ++ runes_of_ascii "
-    ), @lengthOf( repeatCount
-) //x
-@calculatedFrom(
-""`tick`"" )  float lengthOf ,
-} packet Pad { repeat uint8x body`u8 x,` ,	zchar	{
-    u8 trueish, float `
-` ,
-    } , @lengthOf(
-uint8x
-) @lengthOf( //x
-float ) u64 T @calculatedFrom( ""// no comment"" ) , @rightPad ()
-    repeat options1//x
-int ,
-@tag( 00
-// c
-// c
-)
-    @lengthOf( string_
-// c
-/// triple
-)
-@lengthOf( f32a	)
-string
-/// triple
-//	t
-u , match
-    // trailing space 
-    x as uint8x
-    {[
-    ""it's"" , ""x y""
-, ""it's""  ] : // " ++ [128512]%N ++ runes_of_ascii " emoji
-i64_	,// c
-}
-    ,} root packet
-trueish{ i8i8`line1
-line2` , } // " ++ [27880; 37322]%N ++ runes_of_ascii "
-packet tag { //	t
-float64 // packet A { u8 x, }
-Foo
-    `` , }
-")).
-Eval vm_compute in ("<<<M163>>>" ++ check (runes_of_ascii "packet
-    // `tick` ""quote"" 'q'
-    u8x {} packet calculatedFrom
-    {
-    i8i8
-len
-,
-    match lengthOf as leftPad
-{ 007
-    : crc
-, ""abc"": o 10 : falsey
-    } , repeat  i8
-metadata  , @calculatedFrom(""" ++ [28040; 24687]%N ++ runes_of_ascii """ ) repeat int16
-leftPad
-    // trailing space 
-    ``
-    ,BodyLength
-    @calculatedFrom(  ""a\\""
-    ) ,
-char[] f32a,
-    tag// packet A { u8 x, }
-rootA
-, @rightPad (
-    // " ++ [27880; 37322]%N ++ runes_of_ascii "
-    ' ' ) @tag( 007 ) match o as
-    // " ++ [27880; 37322]%N ++ runes_of_ascii "
-    _x { [ 1
-    // " ++ [27880; 37322]%N ++ runes_of_ascii "
-    ,
+    // " ++ [128512]%N ++ runes_of_ascii " emoji
+, @calculatedFrom( 
 ""a	b""
-, ""1"" ,
-00 ,7
-// " ++ [128512]%N ++ runes_of_ascii " emoji
-//x
-,""" ++ [233]%N ++ runes_of_ascii "t" ++ [233]%N ++ runes_of_ascii """
-    ,
-    // c
-    7 ,00
-    ]
-    : Foo ,
-    // " ++ [27880; 37322]%N ++ runes_of_ascii "
-    ""\" ++ [233]%N ++ runes_of_ascii """// @lengthOf(
-:  matchKey
-    ,},//x
-@rightPad (	'\x00' )string msg_type	, }
-packet  trueish {u8x
-``
-, @lengthOf( Header
     )
-    repeat int64 int	`` ,
-} MetaData matchKey	{ string msg_type	, zchar[
-    //	t
-    4294967296
-]
-repeatCount `it's`
-, u8
-crc
-, zchar
-o ,int64 asx
-, }root
-packet chars{
-    }
-")).
-Eval vm_compute in ("<<<M989>>>" ++ check (runes_of_ascii "packet int
-// a // b
-// @lengthOf(
-{i16 Logon @calculatedFrom(
-    ""a\\"" ) ,  repeat
-calculatedFrom	`// not a comment` , @calculatedFrom(
-    // @lengthOf(
-    ""CRC32"" ) Z9_ charz , @lengthOf(  Z9_) /// triple
-matchKey  `u8 x,` , } MetaData asx { }packet
-Packet {
-    @tag( 65535  ) options1, int @lengthOf(
-metadata
-) `it's`,
-    //x
-    u8x{ char[00 ] Logon ,
-repeat  i32 T
-`// not a comment` , chars { float64
-msg_type@lengthOf(
-body	), f64 Z9_ ,
-// a // b
-// @lengthOf(
-u16 string_
-@lengthOf( int )`doc`	,//x
-repeatCount
-    @calculatedFrom( ""x y""	),} , }, match A/// triple
-as	u { [
-    ""packet"" , ""x y"" ] : f32a ,
-[
-65535 /// triple
-,00 ] :stringy 255 : pack
-    ,
-[ 0 , ""`tick`""
-    ] :
-x
-    ,
-    1 : matchKey
-, } , } packet
-    roots{
-@calculatedFrom( ""\n"" ) char[
-65535
-    // a // b
-    ] Packet , }
-")).
-Eval vm_compute in ("<<<M4074>>>" ++ check (runes_of_ascii "MetaData	// `tick` ""quote"" 'q'
-uint8x
-{ char[	// `tick` ""quote"" 'q'
-7	] 
-Foo
-,
-float64 
 
-    //x
-/// triple
-    repeatCount,  /// triple
-	a1 uint8x
-    `// not a comment`
-,  } packet Header
-    {
-
-    @calculatedFrom(	""packet""	) repeat calculatedFrom 
-charz ,} packet rootA
-    { 
-@calculatedFrom( ""abc"") @calculatedFrom( """"
+    @tag(
+	00 )
+	@rightPad 
+(
+	' ' 
 )
+u64
+stringy// " ++ [128512]%N ++ runes_of_ascii " emoji
 
-@lengthOf( 	 // " ++ [128512]%N ++ runes_of_ascii " emoji
-asx 
-) repeat
-
-repeatCount
-
-    ,repeat// " ++ [128512]%N ++ runes_of_ascii " emoji
-o
-{
-    crc
-
-options1 
-      //x
-	  // " ++ [128512]%N ++ runes_of_ascii " emoji
-	,
-zchar[  7  ]
-
-    A
-,
-
-    Z9_
-    @lengthOf(	Pad)
-
-,
-calculatedFrom
-	// trailing space 
-  @calculatedFrom(""a\""b"") 	 // packet A { u8 x, }
-	,}
-
-,
-repeat 
-a1 Foo
-
-    `{ , }`
-, charz ,	}
-	options{ body  =  """ ++ [28040; 24687]%N ++ runes_of_ascii """
-	;
-    packetx	// a // b
-  =  0
-	}
-    MetaData
-    _x // @lengthOf(
-  	{int16	crc	, } ")).
-Eval vm_compute in ("<<<M1022>>>" ++ check (runes_of_ascii "//
-packet T
-    { @lengthOf( stringy )
-f64 packetx `a\` ,packetx asx// `tick` ""quote"" 'q'
-,	string matchKey `say ""hi""` , int8 roots ,u32 asx @calculatedFrom(""it's"")
-, @calculatedFrom( ""// no comment""// " ++ [128512]%N ++ runes_of_ascii " emoji
-)
-// " ++ [27880; 37322]%N ++ runes_of_ascii "
-// @lengthOf(
-match i64_ as
-roots
-{ ""// no comment""// trailing space 
-:crc , }	,
-@lengthOf(
-leftPad
-) string u128 `doc`, @lengthOf( asx ) match
-    asx
-as f32a { [10,007 ] : asx , [ 10 , ""1""
-] :
-BodyLength, 1: Logon, }
-    , @calculatedFrom(
-    ""// no comment""
-)
-    @lengthOf(
-    zchar )zchar[ 0123456789] // trailing space 
-T
-    `" ++ [28040; 24687; 31867; 22411]%N ++ runes_of_ascii "`  , char[
-10 ]matchKey``,
-    } MetaData options1
-{ i64
-repeatCount`a\`
-,	f32 calculatedFrom `// not a comment` , char[1]	T , } packet A { // " ++ [128512]%N ++ runes_of_ascii " emoji
-char[ 1 ]u `" ++ [28040; 24687; 31867; 22411]%N ++ runes_of_ascii "` , }
-")).
-Eval vm_compute in ("<<<M1262>>>" ++ check (runes_of_ascii "packet float{	x // " ++ [128512]%N ++ runes_of_ascii " emoji
-{ u128 @calculatedFrom( ""it's"" ) `line1
-line2` , } ,  match
-    packetx as roots
-{ """"
-    :
-body ,
-    007 : // " ++ [128512]%N ++ runes_of_ascii " emoji
-MetaDataX 7 //
-:
-stringy , 00: u8x,
-1
-    : lengthOf
-    ,  } , }packet asx
-{ match x
-as  repeatCount
-// " ++ [27880; 37322]%N ++ runes_of_ascii "
-//	t
-{
-// packet A { u8 x, }
-// a // b
-0
-:  float ,
-    // " ++ [27880; 37322]%N ++ runes_of_ascii "
-    },
-    charz
-    ,@tag( 0 ) @calculatedFrom( ""\" ++ [233]%N ++ runes_of_ascii """ )
-    // @lengthOf(
-    @lengthOf( asx ) falsey
-    //
-    roots
-,
-repeat u32	BodyLength // packet A { u8 x, }
-`line1
-line2`, //	t
-@rightPad(
-'\x00'
-) repeat
-zchar
-{u64 x_y_z
-`line1
-line2` , }  , // c
-@lengthOf(
-i64_ )@lengthOf(Header
-)
-@tag(1 )u8
-o	@calculatedFrom( // @lengthOf(
-""\n"") `doc`, } // trailing space ")).
-Eval vm_compute in ("<<<M119>>>" ++ check (runes_of_ascii "packet
-Pad {
-@lengthOf(stringy)MetaDataX  @calculatedFrom(""" ++ [28040; 24687]%N ++ runes_of_ascii """ ) `{ , }` ,
-//x
-/// triple
-char[ 0123456789 ]leftPad @lengthOf( float
-), asx leftPad `u8 x,` ,
-    @calculatedFrom(""\" ++ [233]%N ++ runes_of_ascii """ )
-    repeat  rootA
-    matchKey `" ++ [28040; 24687; 31867; 22411]%N ++ runes_of_ascii "`, @lengthOf( stringy
-    ) /// triple
-uint8x msg_type `u8 x,`, // c
-char[ 3
-]
-stringy `tab	here`  ,
-}
-MetaData metadata{ string_ zchar , float32 u128	,
-char[]
-    //	t
-    u128//x
-,} options
-    // trailing space 
-    { zchar =""" ++ [28040; 24687]%N ++ runes_of_ascii """ ;
-msg_type = 007 ;	repeatCount = '\x00' ;	} packet
-_x { }  options
-{
-    asx
-=
-true;
-lengthOf =
-'0'  i8i8= '0'  crc =
-""abc""
-    /// triple
-    ; Packet
-// " ++ [128512]%N ++ runes_of_ascii " emoji
-// trailing space 
-= ' ' } // a // b")).
-Eval vm_compute in ("<<<M3795>>>" ++ check (runes_of_ascii "options {
-    packetx = ""a\\""
-    //	t
-    x_y_z = false;
-    len = """ ++ [233]%N ++ runes_of_ascii "t" ++ [233]%N ++ runes_of_ascii """
-    u = ""x y""
-}
-
-MetaData Foo {
-    uint8x Z9_ `
-    `,
-    options1 msg_type,
-    string_ trueish `
-    `,
-    metadata rootA `two words`,
-}
-
-root packet Foo {
-    repeat trueish {
-        match A as options1 {
-            ""packet"" : int,
-        },
-        zchar[007] u8x @calculatedFrom(""" ++ [233]%N ++ runes_of_ascii "t" ++ [233]%N ++ runes_of_ascii """),
-        msg_type float `" ++ [28040; 24687; 31867; 22411]%N ++ runes_of_ascii "`,
-        match string_ as charz {
-            10 : zchar,
-            [
-                0, 007, 10, 65535, 1,
-                ""x y"", """ ++ [233]%N ++ runes_of_ascii "t" ++ [233]%N ++ runes_of_ascii """
-            ] : u,
-            1 : u128,
-            3 : int,
-        },
-    },
-}")).
-Eval vm_compute in ("<<<M4427>>>" ++ check (runes_of_ascii "packet crc {
-    // packet A { u8 x, }
-    // trailing space 
-    Logon,
-}
-
-options {
-    msg_type = '\x00';
-}
-
-packet falsey {
-    char[0123456789] calculatedFrom @calculatedFrom(""packet"") `say ""hi""`,
-    match As as o {
-        65535 : A,
-        """" : _x,
-        ""`tick`"" : zchar,
-        0123456789 : calculatedFrom,
-    },
-    @tag(00)
-    As {
-        char[] calculatedFrom,
-    },
-    float32 zchar,
-    char[255] lengthOf,
-    @lengthOf(chars)
-    @lengthOf(a1)
-    body @calculatedFrom(""// no comment"") `crlf
-    line`,
-}
-
-root packet _x {
-    @calculatedFrom(""a\\"")
-    repeat i32 o,
-}")).
-Eval vm_compute in ("<<<M4531>>>" ++ check (runes_of_ascii "// packet A { u8 x, }
-packet Foo {
-}
-
-packet i64_ {
-    asx @lengthOf(a1) `two words`,
-    repeat i64_ {
-        char[] u `crlf
-                line`,
-        char[10] metadata,
-        //
-        a1 {
-            repeat zchar[1] len,
-            char[00] Z9_ @calculatedFrom(""a\\""),
-            zchar[7] Header @lengthOf(x),
-            repeat pack,// @lengthOf(
-        },// trailing space 
-    },
-    match tag as u8x {
-        ""{,}"" : zchar,
-        1 : metadata,
-        """ ++ [233]%N ++ runes_of_ascii "t" ++ [233]%N ++ runes_of_ascii """ : a1,
-        """ ++ [233]%N ++ runes_of_ascii "t" ++ [233]%N ++ runes_of_ascii """ : chars,
-        [""a\\""] : crc,
-    },
-    tag @calculatedFrom(""" ++ [128512]%N ++ runes_of_ascii """),
-}")).
-Eval vm_compute in ("<<<M3740>>>" ++ check (runes_of_ascii "MetaData i8i8 {
-    char[0123456789] body `doc`,
-}
-
-packet uint8x {
-    pack {
-        char u `crlf
-                line`,
-        float,
-        zchar[007] A,
-    },
-    char[] calculatedFrom `
-        `,
-    char[42] matchKey @calculatedFrom(""a\\"") ``,
-}
-
-root packet int {
-    @rightPad('0')
-    Pad {
-        match zchar as asx {
-            [42, ""a	b""] : Logon,
-        },
-        Packet {
-            zchar[4294967296] A,
-        },
-        match x as float {
-            ""x y"" : o,
-            1 : calculatedFrom,
-        },
-    },
-}")).
-Eval vm_compute in ("<<<M581>>>" ++ check (runes_of_ascii "// packet A { u8 x, }
-options{ // a // b
-} options
-    { matchKey = 00
-metadata =
-/// triple
-//
-float64 u8x// `tick` ""quote"" 'q'
-= 42
-    }
-packet
-    uint8x{
-    @lengthOf( matchKey
-)
-    float32 options1
-,
-@lengthOf( packetx ) repeat
-zchar[7 ]
-As ,@rightPad (
-)
-    // `tick` ""quote"" 'q'
-    uint64 repeatCount
-//	t
-// packet A { u8 x, }
-@lengthOf( leftPad	), @lengthOf( As
-) @leftPad(
-'\x00') // @lengthOf(
-Header options1, @lengthOf( // a // b
-packetx //
-) repeat
-    zchar[ 255
-    ] zchar `it's` , }
-")).
-Eval vm_compute in ("<<<M1190>>>" ++ check (runes_of_ascii "packet metadata {	@tag( 7 ) body { u8x As
-    // @lengthOf(
-    `line1
-line2`
-    ,
-    match// a // b
-MetaDataX	as float{ 10
-: msg_type 7 : o,}, // " ++ [27880; 37322]%N ++ runes_of_ascii "
-} , _x
-{  repeat falsey	`
-`
-,match
-    x_y_z
-    as Packet {""" ++ [28040; 24687]%N ++ runes_of_ascii """ :u8x	, } ,
-zchar @calculatedFrom( """ ++ [233]%N ++ runes_of_ascii "t" ++ [233]%N ++ runes_of_ascii """ ) , } , // trailing space 
-@lengthOf( stringy )i64_
-@lengthOf( _x )	`` ,/// triple
-}
-//x
-//x
-packet asx
-    { @leftPad
+@calculatedFrom(""a	b"" // @lengthOf(
+      )
+, @leftPad
     (
-    '\x00' )
-i64	repeatCount
-, @lengthOf( lengthOf//	t
-)
-repeat//	t
-float32 Logon
+    '\x00')	options1`" ++ [233]%N ++ runes_of_ascii "`
+,
+
+    @rightPad  (  )
+
+    repeat char[007
+]  Foo`line1
+line2` , } options	{	len
+= '\x00' ;
+	roots
+    = ""{,}""
+packetx =i64  ;
+	}")).
+Eval vm_compute in ("<<<M663>>>" ++ check (runes_of_ascii "
+root packet
+options1 {float@calculatedFrom(
+""a	b"" ) , @leftPad
+    // `tick` ""quote"" 'q'
+    ( ) match
 // @lengthOf(
-//
+// `tick` ""quote"" 'q'
+lengthOf as  f32a{  ""1""	: f32a , ""{,}"" : falsey , // a // b
+} ,
+// a // b
+// packet A { u8 x, }
+} packet
+T{ @tag( 7) @lengthOf(
+f32a
+) @rightPad
+(
+) char[] msg_type @calculatedFrom( ""\" ++ [233]%N ++ runes_of_ascii """) `" ++ [28040; 24687; 31867; 22411]%N ++ runes_of_ascii "`,	options1 u128
+    //x
+    `// not a comment` ,
+    // packet A { u8 x, }
+    @rightPad (  ' '	) char[
+    1 ] metadata
+    // `tick` ""quote"" 'q'
+    @calculatedFrom(""" ++ [128512]%N ++ runes_of_ascii """ )`doc`
+    , } packet u8x{ roots
+@lengthOf(
+f32a
+) , @calculatedFrom( ""a\""b"") @tag( 00 )
+@leftPad ( '\x00'
+) MetaDataX { int @calculatedFrom( ""`tick`""
+) `
+` ,}// " ++ [27880; 37322]%N ++ runes_of_ascii "
 , }
 ")).
-Eval vm_compute in ("<<<M223>>>" ++ check (runes_of_ascii "
-root packet // a // b
-matchKey
-    { @calculatedFrom(
-""// no comment"")match matchKey as crc { 65535:metadata , 255 :options1 , ""{,}"" :asx
+Eval vm_compute in ("<<<M150>>>" ++ check (runes_of_ascii "packet
+    Header	{	repeat string
+    Header
 ,
-    [ ""\" ++ [233]%N ++ runes_of_ascii """ , 00
-,	""""  , /// triple
-""{,}"" ,
-""a\\"" ]
-    : msg_type , 007: f32a ,//x
-} , @lengthOf(
-repeatCount) @leftPad ()
-    @calculatedFrom(  ""a\\"")float ,@tag( 42 ) u8 crc @calculatedFrom( //
-""" ++ [28040; 24687]%N ++ runes_of_ascii """// " ++ [27880; 37322]%N ++ runes_of_ascii "
-)
-, uint64
-BodyLength @lengthOf( f32a)
-    `" ++ [28040; 24687; 31867; 22411]%N ++ runes_of_ascii "` , tag a1 ,
-tag @calculatedFrom( ""`tick`""
-), } // trailing space ")).
-Eval vm_compute in ("<<<M4153>>>" ++ check (runes_of_ascii "MetaData metadata {
-    repeatCount asx,
-    u16 trueish,
-    i8i8 Foo `say ""hi""`,
-    char[4294967296] u,
-}
-
-packet uint8x {
-    repeat char[] u,
-    @tag(007)
-    char[7] falsey @calculatedFrom(""" ++ [233]%N ++ runes_of_ascii "t" ++ [233]%N ++ runes_of_ascii """),
-    @leftPad('\x00')
-    @lengthOf(leftPad)
-    Packet {
-        repeat packetx Header,
-        tag `" ++ [233]%N ++ runes_of_ascii "`,
-        i16 _x `a\`,
-    },
-    repeat A {
-        //	t
-        repeat Header `doc`,
-        i64_,
-        char[10] asx `two words`,
-    },
-}")).
-Eval vm_compute in ("<<<M4388>>>" ++ check (runes_of_ascii "// " ++ [128512]%N ++ runes_of_ascii " emoji
-packet o {
-    char[4294967296] tag,
-    @tag(1)
-    zchar[0123456789] Logon,
-    stringy `it's`,
-    repeat string Logon,
-    repeat f32 string_ `u8 x,`,
-    @lengthOf(roots)
-    A `" ++ [233]%N ++ runes_of_ascii "`,
-    string_,
-    @lengthOf(i64_)
-    @calculatedFrom(""1"")
+repeat options1  ,	zchar[
     //	t
-    f32a @lengthOf(f32a) `doc`,
-    @calculatedFrom(""" ++ [28040; 24687]%N ++ runes_of_ascii """)
-    repeatCount `a\`,
-}
-
-/// triple
-root packet As {
-    @tag(0)
-    char[] o `it's`,
-}
-
-packet matchKey {
-}")).
-Eval vm_compute in ("<<<M353>>>" ++ check (runes_of_ascii "options { len=
-    // c
-    ""abc""
-; lengthOf = // trailing space 
-true ;} packet
-float {
-    @tag( 65535
+    00 ] matchKey ,} options
+// @lengthOf(
 // `tick` ""quote"" 'q'
-// trailing space 
-) @rightPad
-(' ' )int32
-zchar ,repeat int64 trueish
-,
-@tag(10// packet A { u8 x, }
-)
-T repeatCount ,@leftPad (' ' )float32 MetaDataX
-    `it's`
+{charz= ""\n"" ; // a // b
+BodyLength = ""x y"" u8x
+    = ""x y""
+    u // `tick` ""quote"" 'q'
+= 255 }
+MetaData u8x{
+// a // b
+// c
+Z9_
+i8i8 , float32  stringy , float msg_type // `tick` ""quote"" 'q'
+`doc`
     ,
-@rightPad (	' ' ) repeat zchar[ 0123456789 ] A
-    , repeat
-i8 f32a , u8 body
-@calculatedFrom( ""it's""
-)
-,
-    }
-")).
-Eval vm_compute in ("<<<M4171>>>" ++ check (runes_of_ascii "options {
-    x = 3
-    matchKey = ""a\""b""// @lengthOf(
-    leftPad = ""packet"";
-    T = zchar[65535];
-}
-
-MetaData MetaDataX {
-}
-
-MetaData repeatCount {
-    u8x Pad,
-}
-
-packet T {
-    @tag(42)
-    repeat MetaDataX `{ , }`,// @lengthOf(
-    float32 x @lengthOf(u8x) `
-    `,
-    int16 matchKey @calculatedFrom(""\n"") `two words`,
-}
-
-packet packetx {
-    _x @calculatedFrom(""a\""b"") `a\`,
-}// a // b")).
-Eval vm_compute in ("<<<M1003>>>" ++ check (runes_of_ascii "options { Foo = ""packet""; }
-/// triple
-//	t
-options { // `tick` ""quote"" 'q'
-x
-=
-' ' ;
-} // @lengthOf(
-MetaData
-// a // b
-// c
-calculatedFrom{ char[ 65535 ]asx , zchar stringy `
-`	, roots packetx
-    ,zchar[ 3 ] options1	, float	u8x ,char  asx
-    `doc`,
-} packet lengthOf
-// c
-// c
-{
-uint16 // a // b
-calculatedFrom
-    @calculatedFrom(""x y"" ) , } // packet A { u8 x, }")).
-Eval vm_compute in ("<<<M1263>>>" ++ check (runes_of_ascii "packet	Z9_
-{
-    @lengthOf(pack )calculatedFrom //	t
-u128 , /// triple
-@tag( 4294967296 )
-u64 options1 ,	uint16	uint8x@calculatedFrom(
-""\n""  ), //
-} packet	pack{ leftPad
-MetaDataX , @leftPad
-( )@lengthOf( packetx	)
-repeat lengthOf { f64
-repeatCount
-    @calculatedFrom( ""a\""b"" ) `tab	here` ,
-}, repeat pack body ,} options {
-u128
-//
-//	t
-=true ; }
-")).
-Eval vm_compute in ("<<<M3865>>>" ++ check (runes_of_ascii "packet T {
-    uint64 rootA `it's`,
-    @tag(255)
-    f32a {
-        string MetaDataX `" ++ [28040; 24687; 31867; 22411]%N ++ runes_of_ascii "`,
-    },
-    uint8x @lengthOf(u8x),
-    match x as As {
-        4294967296 : trueish,
-        ""{,}"" : Packet,
-        1 : float,
-        007 : repeatCount,
-    },
-    @leftPad('0')
-    @lengthOf(crc)
-    int16 u128,
-    calculatedFrom asx `u8 x,`,
-}")).
-Eval vm_compute in ("<<<M1067>>>" ++ check (runes_of_ascii "packet f32a{char[
-    0123456789 ] matchKey `u8 x,` , @tag( 7 ) zchar[
-    //x
-    00
-// trailing space 
-// a // b
-] _x
-, } packet repeatCount {@calculatedFrom( ""CRC32""
-    )@lengthOf(f32a)@leftPad('0'
-// trailing space 
-//
-) match // trailing space 
-body
-// `tick` ""quote"" 'q'
-// " ++ [27880; 37322]%N ++ runes_of_ascii "
-as
-    int{ [ """" , 1
-] :
-    string_, } ,}
-")).
-Eval vm_compute in ("<<<M660>>>" ++ check (runes_of_ascii "packet
-BodyLength { }
-root packet
-Logon//x
-{
-@tag(	10 ) @tag(0123456789 )
-    //x
-    repeat float32
-Pad	,	}
+calculatedFrom T , Foo T `a\` , }	root
     packet
-f32a{// `tick` ""quote"" 'q'
-@rightPad// " ++ [128512]%N ++ runes_of_ascii " emoji
-( ' '
-    ) // a // b
-repeat chars body , x_y_z @lengthOf( matchKey) ,
-repeat
-float64
-    //x
-    Logon
-    , repeat zchar[
-4294967296 //
-] Foo
-, }")).
-Eval vm_compute in ("<<<M1903>>>" ++ check (runes_of_ascii "MetaData
-    u { }  options {
-// c
-// @lengthOf(
-float = int8 len rootA =false ; As =	int16 // `tick` ""quote"" 'q'
-repeatCount
-    // trailing space 
-    =
-    int16
-; u8x =
-    //	t
-    '\x00' ; } options	{
-    repeatCount
-= 0
-u128
-    //
-    = false ; i64_
+    roots
+    {	@tag( 00
+) /// triple
+match// `tick` ""quote"" 'q'
+len
+    as roots {
+    // @lengthOf(
+    [ 4294967296 ]
+    : tag ""// no comment"" :float ,"""" : uint8x ,
+// " ++ [27880; 37322]%N ++ runes_of_ascii "
 // trailing space 
-// `tick` ""quote"" 'q'
-= '0' ; //	t
-}
-")).
-Eval vm_compute in ("<<<M2063>>>" ++ check (runes_of_ascii "MetaData
-    u { }  options {
-// c
-// @lengthOf(
-float = int8 ;rootA =false ; As =	int16 // `tick` ""quote"" 'q'
-repeatCount
-    // trailing space 
-    =
-    int16
-; u8x =
-    //	t
-    '\x00' ; " ++ [8232]%N ++ runes_of_ascii " } options	{
-    repeatCount
-= 0
-u128
-    //
-    = false ; i64_
-// trailing space 
-// `tick` ""quote"" 'q'
-= '0' ; //	t
-}
-")).
-Eval vm_compute in ("<<<M1902>>>" ++ check (runes_of_ascii "MetaData
-    u { }  options {
-// c
-// @lengthOf(
-float = int8 rootA; =false ; As =	int16 // `tick` ""quote"" 'q'
-repeatCount
-    // trailing space 
-    =
-    int16
-; u8x =
-    //	t
-    '\x00' ; } options	{
-    repeatCount
-= 0
-u128
-    //
-    = false ; i64_
-// trailing space 
-// `tick` ""quote"" 'q'
-= '0' ; //	t
-}
-")).
-Eval vm_compute in ("<<<M2047>>>" ++ check (runes_of_ascii "MetaData
-    u { }  options {
-// c
-// @lengthOf(
-float = int8 ;rootA =false ; As =	int16 // `tick` ""quote"" 'q'
-repeatCount
-    // trailing space 
-    =
-    int16
-; u8x =
-    //	t
-    '\x00' ; } options	{
-    repeatCount
-= 0
-u128
-    //
-    = false ; i64_
-// trailing space 
-// `tick` ""quote"" 'q'
-= '0' } //	t
-;
-")).
-Eval vm_compute in ("<<<M1925>>>" ++ check (runes_of_ascii "MetaData
-    u { }  options {
-// c
-// @lengthOf(
-float = int8 ;rootA =false ;  =	int16 // `tick` ""quote"" 'q'
-repeatCount
-    // trailing space 
-    =
-    int16
-; u8x =
-    //	t
-    '\x00' ; } options	{
-    repeatCount
-= 0
-u128
-    //
-    = false ; i64_
-// trailing space 
-// `tick` ""quote"" 'q'
-= '0' ; //	t
-}
-")).
-Eval vm_compute in ("<<<M949>>>" ++ check (runes_of_ascii "MetaData
-    T
-//x
-// trailing space 
-{ char[]	metadata, } MetaData
-    a1
-{ charz
-float , i32 i8i8`say ""hi""` ,} packet pack {MetaDataX	, f64 calculatedFrom , zchar[3 ]
+007
+    // " ++ [27880; 37322]%N ++ runes_of_ascii "
+    :
+    options1 , } , }")).
+Eval vm_compute in ("<<<M312>>>" ++ check (runes_of_ascii "packet BodyLength // " ++ [27880; 37322]%N ++ runes_of_ascii "
+{ char[ 255 // " ++ [27880; 37322]%N ++ runes_of_ascii "
+]	_x, match body as repeatCount
+    { ""{,}"" :
+len }
+    , char[
+    0] Logon @calculatedFrom(	""{,}"" ) ,
     // a // b
-    T//
-@calculatedFrom(
-    """ ++ [233]%N ++ runes_of_ascii "t" ++ [233]%N ++ runes_of_ascii """) `doc` ,A {i16 charz,char[ //
-0123456789 ]crc `" ++ [28040; 24687; 31867; 22411]%N ++ runes_of_ascii "` , char[]
-string_ , } , // a // b
-}")).
-Eval vm_compute in ("<<<M1283>>>" ++ check (runes_of_ascii "MetaData  T {
-} root packet MetaDataX {
-// packet A { u8 x, }
-// `tick` ""quote"" 'q'
-@lengthOf( trueish
-)repeat
-//
-//	t
-BodyLength ``  , }MetaData
-    A // `tick` ""quote"" 'q'
-{ float32 trueish , } packet
-o
-    //x
-    {
-    @lengthOf( Foo)  i8i8 stringy
-    ,}MetaData trueish	{
-    string o , }")).
-Eval vm_compute in ("<<<M3661>>>" ++ check (runes_of_ascii "
-options{
-    LittleEndian=
-	true; }
-    packet 
-Sub
+    @rightPad() i64_//x
+@calculatedFrom( ""it's"" )
+    `crlf
+line` , } packet
+Header {
+match As as
+    chars
 {
-	u8 a , @calculatedFrom(	""CRC16"")
-u64 SubSum ,  }  root 
-packet  Frame {
-u16 MsgType
-
-    ,  u16  BodyLen@lengthOf(Body)
-    ,
-
-Sub Body
+7: packetx , [ ""it's""  ]: u128
 ,
-string note
-
-,
-
-    @calculatedFrom( ""CRC16"" )  u64
-
-Checksum , 
-u8 tail ,
-    }
-
-")).
-Eval vm_compute in ("<<<M92>>>" ++ check (runes_of_ascii "options
-    {
-    u8x =zchar[ 42 ] ;
-roots = """ ++ [233]%N ++ runes_of_ascii "t" ++ [233]%N ++ runes_of_ascii """	; calculatedFrom
-= '0' As =
-    ""packet"" ; } options	{falsey=  10
-    ; A=
-// c
-// packet A { u8 x, }
-'\x00' ; leftPad// c
-=	""" ++ [233]%N ++ runes_of_ascii "t" ++ [233]%N ++ runes_of_ascii """
-    ;
-    crc
-//	t
-// c
-= u16
-// `tick` ""quote"" 'q'
+    [
+    4294967296 , ""{,}"" ] : f32a ,} ,
+    }packet asx { @calculatedFrom( ""1""
+)
+    a1
 // @lengthOf(
-;As
-= 255 } /// triple")).
-Eval vm_compute in ("<<<M1568>>>" ++ check (runes_of_ascii "packet
-//	t
-// trailing space 
-_x {
-// packet A { u8 x, }
-// c
-char[
-3
-    ] u8x @lengthOf(
-u8x ) , @calculatedFrom(""" ++ [128512]%N ++ runes_of_ascii """ // @lengthOf(
-)
-i16	Foo
-@lengthOf( @lengthOf(	string_
-    )`doc`	, repeat	i64 metadata , @lengthOf( string_
-) i8 // c
-u  `line1
-line2`	,
+//
+,
+//
+//x
+match x_y_z as  crc /// triple
+{
+// `tick` ""quote"" 'q'
+// `tick` ""quote"" 'q'
+""CRC32"" : As
+, 7
+:o , //x
+} ,match msg_type as Packet {""" ++ [233]%N ++ runes_of_ascii "t" ++ [233]%N ++ runes_of_ascii """ : metadata }, repeat u8
+i64_ ,// a // b
+}")).
+Eval vm_compute in ("<<<M3931>>>" ++ check (runes_of_ascii "options {
 }
+
+root packet a1 {
+    @tag(00)
+    Logon,
+    @calculatedFrom(""{,}"")
+    repeatCount {
+        repeat float i64_,
+        match u8x as leftPad {
+            3 : u128,
+            1 : i8i8,
+            42 : u128,
+            """ ++ [233]%N ++ runes_of_ascii "t" ++ [233]%N ++ runes_of_ascii """ : msg_type,
+            [1, 42] : A,
+        },
+        repeat i64 metadata,
+    },
+    match len as Z9_ {
+        255 : o,
+        0123456789 : Pad,
+        //
+        [7, ""{,}"", ""abc"", 007] : chars,
+        3 : packetx,
+        00 : o,
+        /// triple
+    },
+    zchar[0123456789] i64_ @lengthOf(chars),
+    float32 trueish `" ++ [28040; 24687; 31867; 22411]%N ++ runes_of_ascii "`,
+}")).
+Eval vm_compute in ("<<<M839>>>" ++ check (runes_of_ascii "options {
+uint8x =	true	;	calculatedFrom= '\x00'options1 = // @lengthOf(
+""`tick`"" ;
+    Header=false ; } root  packet MetaDataX {i16
+// c
+// `tick` ""quote"" 'q'
+A `" ++ [28040; 24687; 31867; 22411]%N ++ runes_of_ascii "`,T
+// trailing space 
+// trailing space 
+Logon,repeat// c
+char[ 65535 ] packetx
+`tab	here`,
+//
+//x
+@tag(
+65535
+    )
+char[
+007] u8x ,
+repeat u128 `a\`
+, @lengthOf( Pad)  @lengthOf( u8x )
+pack @lengthOf(
+    pack)
+,repeat zchar[
+0 ]chars
+,zchar[ 65535/// triple
+]
+T , } options { i8i8 =""CRC32""; metadata = '0'
+; // " ++ [128512]%N ++ runes_of_ascii " emoji
+lengthOf
+    =  '0' ;
+}
+MetaData float { uint8 int , }
 ")).
-Eval vm_compute in ("<<<M3894>>>" ++ check (runes_of_ascii "
+Eval vm_compute in ("<<<M4208>>>" ++ check (runes_of_ascii "packet len
+{@tag( 
+4294967296	)
+repeat f32 
+a1 `" ++ [28040; 24687; 31867; 22411]%N ++ runes_of_ascii "`
+	,  uint8x
 
-  packet 
-metadata {@lengthOf(i8i8
+`
+` 
 
+    //
+//	t
+	,	}
+    root 
+packet rootA{  match  crc	as  // packet A { u8 x, }
+	  i8i8  // c
+  { ""a\""b""  :
+
+    _x
+00 :	Packet
+	,
+	""// no comment"": 
+MetaDataX  ,// c
+
+[""" ++ [28040; 24687]%N ++ runes_of_ascii """  //x
+  ,
+
+    007 ]:MetaDataX 42
+
+    :
+charz 
+, [ 
+""" ++ [233]%N ++ runes_of_ascii "t" ++ [233]%N ++ runes_of_ascii """
+	, 	 // a // b
+    ""abc""
+]
+
+    : _x  , } ,
+uint16
+    Logon
+,
+
+    @leftPad (  ' '
+	) 	 // packet A { u8 x, }
+  @leftPad 
+( // " ++ [27880; 37322]%N ++ runes_of_ascii "
+
+' '	)
+
+    uint8
+
+    stringy	@lengthOf(	msg_type
 )
-    match BodyLength as
-Foo{ 3
-:
 
-    len
+`
+`
+
     , }
 
-,
-
-body @lengthOf(
-    roots) 
-, f32a
-    x	,
-
-}
-	root
-packet i8i8
-
+")).
+Eval vm_compute in ("<<<M1181>>>" ++ check (runes_of_ascii "  packet  uint8x // a // b
 {
-    zchar[	10]
-    i64_
-    @calculatedFrom(  ""a\\""
-)
-
-    `
-`	, } // packet A { u8 x, }
-")).
-Eval vm_compute in ("<<<M1623>>>" ++ check (runes_of_ascii "packet
-//	t
-// trailing space 
-_x {
-// packet A { u8 x, }
-// c
-char[
-3
-    ] u8x @lengthOf(
-u8x ) , @calculatedFrom(""" ++ [128512]%N ++ runes_of_ascii """ // @lengthOf(
-)
-i16	Foo
-@lengthOf(	string_
-    )`doc`	, repeat	i64 metadata , @lengthOf( string_
-) ) i8 // c
-u  `line1
-line2`	,
-}
-")).
-Eval vm_compute in ("<<<M1504>>>" ++ check (runes_of_ascii "packet
-//	t
-// trailing space 
-_x {
-// packet A { u8 x, }
-// c
-3
-char[
-    ] u8x @lengthOf(
-u8x ) , @calculatedFrom(""" ++ [128512]%N ++ runes_of_ascii """ // @lengthOf(
-)
-i16	Foo
-@lengthOf(	string_
-    )`doc`	, repeat	i64 metadata , @lengthOf( string_
-) i8 // c
-u  `line1
-line2`	,
-}
-")).
-Eval vm_compute in ("<<<M1645>>>" ++ check (runes_of_ascii "packet
-//	t
-// trailing space 
-_x {
-// packet A { u8 x, }
-// c
-char[
-3
-    ] u8x @lengthOf(
-u8x ) , @calculatedFrom(""" ++ [128512]%N ++ runes_of_ascii """ // @lengthOf(
-)
-i16	Foo
-@lengthOf(	string_
-    )`doc`	, repeat	i64 metadata , @lengthOf( string_
-) i8 // c
-u  `line1
-line2`	}
-}
-")).
-Eval vm_compute in ("<<<M1547>>>" ++ check (runes_of_ascii "packet
-//	t
-// trailing space 
-_x {
-// packet A { u8 x, }
-// c
-char[
-3
-    ] u8x @lengthOf(
-u8x ) , @calculatedFrom( // @lengthOf(
-)
-i16	Foo
-@lengthOf(	string_
-    )`doc`	, repeat	i64 metadata , @lengthOf( string_
-) i8 // c
-u  `line1
-line2`	,
-}
-")).
-Eval vm_compute in ("<<<M3893>>>" ++ check (runes_of_ascii "MetaData u {
-}
-
-options {
-    // c
-    // @lengthOf(@x
-    float = int8;
-    rootA = false;
-    As = int16// `tick` ""quote"" 'q'
-    repeatCount = int16;
-    u8x = '\x00';
-}
-
-options {
-    repeatCount = 0
-    u128 = false;
-    i64_ = '0';//	t
-}")).
-Eval vm_compute in ("<<<M3558>>>" ++ check (runes_of_ascii "// top
-options // c0a
-  // c0b
-{ FixedStringPadFromLeft
-    // c2
-=
-    // c3
-true
-    // c4
-; // c5
-}
-    // c6
-root packet // c8a
-  // c8b
-P // c9a
-  // c9b
-{ // c10
-char[ // c11
-4
-    // c12
-] z // c14
-, // c15
-} // c16a
-  // c16b
-")).
-Eval vm_compute in ("<<<M260>>>" ++ check (runes_of_ascii "
-packet
-crc{ } options
-{ len= '0' } packet uint8x {T  charz `u8 x,` ,
-}
-    MetaData  packetx //	t
-{
-// `tick` ""quote"" 'q'
-// trailing space 
-} options
-    { Header
-    =""CRC32""
-;
-    charz =
-    string MetaDataX
-=
-true ;}
-")).
-Eval vm_compute in ("<<<M267>>>" ++ check (runes_of_ascii "root packet
-i8i8
-    { _x@lengthOf(chars
-),
-    char[	7]
-packetx
-    /// triple
-    `say ""hi""`
-,
-    // c
-    }root packet string_ {
-    //
-    repeat// `tick` ""quote"" 'q'
-options1// c
-`u8 x,`	,
-    }
-options {	}")).
-Eval vm_compute in ("<<<M1727>>>" ++ check (runes_of_ascii "options { trueish = ""`tick`"" ; string_= """ ++ [233]%N ++ runes_of_ascii "t" ++ [233]%N ++ runes_of_ascii """
-    // c
-    } root
-    packet packet body { stringy @calculatedFrom(
-""a	b"" ) `line1
-line2` , }
-packet Logon {
-    @leftPad(
-    ' ' ) //	t
-u16 string_ `u8 x,` ,
-}
-")).
-Eval vm_compute in ("<<<M117>>>" ++ check (runes_of_ascii "root packet // packet A { u8 x, }
-f32a
-{ @lengthOf( int )char[]
     //x
-    o, a1 @lengthOf( packetx
-) // " ++ [27880; 37322]%N ++ runes_of_ascii "
-`u8 x,`
-/// triple
-/// triple
+    } MetaData A
+    /// triple
+    {float32 options1 , roots
+    uint8x
+    , trueish asx , string options1 `" ++ [28040; 24687; 31867; 22411]%N ++ runes_of_ascii "`
+    , i32 int
 ,
-// " ++ [128512]%N ++ runes_of_ascii " emoji
+    u// " ++ [128512]%N ++ runes_of_ascii " emoji
+As `doc` ,
+} packet Header {
+    char[]
+A
+, // a // b
+repeat metadata{match
+    /// triple
+    leftPad as Foo { ""a\""b"" : msg_type
+    // `tick` ""quote"" 'q'
+    }
+    , } , char[] trueish  ,
+matchKey  {
+char[ 4294967296//	t
+] roots	@calculatedFrom( ""x y"" ) , }, i8// " ++ [128512]%N ++ runes_of_ascii " emoji
+MetaDataX@calculatedFrom(  ""packet""
+), }
+")).
+Eval vm_compute in ("<<<M1052>>>" ++ check (runes_of_ascii "MetaData Logon {
+    }
+    packet trueish	{calculatedFrom@lengthOf(
+leftPad )
+    ,
+char[]chars @lengthOf(rootA) `u8 x,`
+,
+@calculatedFrom(""""
 // @lengthOf(
-@calculatedFrom( ""1""
-)u8
-Header ,
+// @lengthOf(
+)As @lengthOf( repeatCount) // " ++ [128512]%N ++ runes_of_ascii " emoji
+`two words`// c
+,
+asx
+`it's` // packet A { u8 x, }
+,// " ++ [27880; 37322]%N ++ runes_of_ascii "
+} packet
+MetaDataX	{repeat	u8  i8i8
+`" ++ [233]%N ++ runes_of_ascii "`
+, uint8 int @lengthOf( uint8x)  ,
+u16 T@lengthOf( body
+// packet A { u8 x, }
+/// triple
+) `" ++ [28040; 24687; 31867; 22411]%N ++ runes_of_ascii "` , zchar[ 3] trueish , @calculatedFrom( ""x y"" ) repeat zchar[ 00 ] zchar , }")).
+Eval vm_compute in ("<<<M143>>>" ++ check (runes_of_ascii "root packet crc {@calculatedFrom(
+""" ++ [128512]%N ++ runes_of_ascii """)
+BodyLength{x_y_z i8i8
+//
+//
+, int32 uint8x
+`two words` ,	rootA tag , zchar[
+7] matchKey
+    `" ++ [233]%N ++ runes_of_ascii "` ,} , T { x@calculatedFrom( ""a	b"" )
+`// not a comment` ,zchar[ // " ++ [128512]%N ++ runes_of_ascii " emoji
+42 ] /// triple
+A
+, match chars
+as
+    //x
+    len {""packet"" :crc 3//x
+:
+chars [
+0123456789 , ""packet"" ]
+    : pack	[""packet""
+,
+00// " ++ [27880; 37322]%N ++ runes_of_ascii "
+,
+    7 ,""" ++ [28040; 24687]%N ++ runes_of_ascii """, 3
+,  ""packet"",
+    42, 0123456789
+    ] :
+repeatCount	""{,}"" :
+chars
+    ,/// triple
+} ,
+} ,
+}")).
+Eval vm_compute in ("<<<M946>>>" ++ check (runes_of_ascii "MetaData	asx { u32
+asx
+    ,
+//
+// a // b
+roots Packet
+    // " ++ [128512]%N ++ runes_of_ascii " emoji
+    , }
+root packet
+pack{ // @lengthOf(
+len @calculatedFrom(""// no comment"" )
+    , match pack as leftPad { [007] // `tick` ""quote"" 'q'
+:	crc
+    //	t
+    ,10 :
+    tag
+    ,7 : packetx
+    ,
+""" ++ [28040; 24687]%N ++ runes_of_ascii """ : stringy ,
+65535
+:
+    i64_ ,1
+: MetaDataX ,
+}	, zchar[
+    /// triple
+    4294967296 ] chars @calculatedFrom(
+    //	t
+    ""\n""
+// `tick` ""quote"" 'q'
+// " ++ [27880; 37322]%N ++ runes_of_ascii "
+) ,
+    }
+")).
+Eval vm_compute in ("<<<M1233>>>" ++ check (runes_of_ascii "// " ++ [128512]%N ++ runes_of_ascii " emoji
+packet u8x {	char[] Z9_ , @leftPad
+    (
+'0'
+)
+    //x
+    u64 int@lengthOf(
+//x
+//	t
+A ) `crlf
+line`	,	repeat
+u8x
+`" ++ [28040; 24687; 31867; 22411]%N ++ runes_of_ascii "`, int64 leftPad @lengthOf(
+T), i8i8 i64_  , // " ++ [128512]%N ++ runes_of_ascii " emoji
+repeat msg_type ,@rightPad
+    // a // b
+    (	'\x00'  ) @lengthOf( zchar )
+matchKey ,
+    // packet A { u8 x, }
+    } MetaData u { } MetaData x_y_z {int16
+rootA,char[]
+o `it's`
+// packet A { u8 x, }
+// @lengthOf(
+, }
+options {}
+")).
+Eval vm_compute in ("<<<M3959>>>" ++ check (runes_of_ascii "packet f32a {
+    i64_ falsey,
+    match i8i8 as _x {
+        // " ++ [27880; 37322]%N ++ runes_of_ascii "
+        0 : Logon,
+        [65535, ""x y""] : Header,
+        4294967296 : Foo,
+        /// triple
+    },
+    @tag(0123456789)
+    u8x msg_type `say ""hi""`,
+}
+
+packet Z9_ {
+    repeatCount leftPad `two words`,
+}
+
+MetaData calculatedFrom {
+    u charz `{ , }`,
+    u64 T `tab	here`,
+    Foo options1 `" ++ [233]%N ++ runes_of_ascii "`,
+    char[] x `doc`,
+    i8i8 u8x,
+}")).
+Eval vm_compute in ("<<<M853>>>" ++ check (runes_of_ascii "
+root packet crc
+{	@rightPad
+    // `tick` ""quote"" 'q'
+    (
+// `tick` ""quote"" 'q'
+// c
+'\x00' )// a // b
+repeat i64 As ,
+// @lengthOf(
+// a // b
+}
+packet// c
+body // " ++ [128512]%N ++ runes_of_ascii " emoji
+{
+}
+packet  uint8x { options1 @calculatedFrom(""a	b"" ) ,
+} MetaData  Packet { }
+/// triple
+//
+MetaData
+    // a // b
+    falsey{	char[ 007 ]
+// trailing space 
+//x
+tag `it's` , As leftPad
+`line1
+line2`,
+    } 	 ")).
+Eval vm_compute in ("<<<M98>>>" ++ check (runes_of_ascii "packet// a // b
+stringy  {
+    Logon { match
+    string_ as
+    i64_
+{ ""x y"":
+string_
+    ,
+// " ++ [27880; 37322]%N ++ runes_of_ascii "
+// `tick` ""quote"" 'q'
+""`tick`"" : string_
+,  1// " ++ [27880; 37322]%N ++ runes_of_ascii "
+:
+/// triple
+// c
+float , [ ""1""
+    ] :
+options1
+    // " ++ [27880; 37322]%N ++ runes_of_ascii "
+    ,} , zchar[1 ] crc@calculatedFrom( """") `two words` , f32a , float32 lengthOf ,
+}
+, @tag(255) u8x @calculatedFrom( // packet A { u8 x, }
+""abc""
+) `a\` , }
+")).
+Eval vm_compute in ("<<<M495>>>" ++ check (runes_of_ascii "  packet pack { u8
+len/// triple
+,@rightPad(  ) u64 A@calculatedFrom( ""\n"" )
+, // trailing space 
+@lengthOf(
+    o )
+    @leftPad() @leftPad (
+)int32 metadata, matchKey ,
+} MetaData matchKey { }packet rootA {}options { A= zchar[65535]float = // `tick` ""quote"" 'q'
+3
+    roots //	t
+= 7 Pad
+    // trailing space 
+    =
+    10 ;trueish =false;}
+
+")).
+Eval vm_compute in ("<<<M4465>>>" ++ check (runes_of_ascii "
+root  packet
+
+    a1 {repeat string  x `// not a comment` , 
+  //x
+    	// @lengthOf(
+		}
+
+options
+
+    //
+    	//	t
+  {	stringy
+
+    = true } 
+packet
+msg_type	{  @rightPad (  '\x00' 
+	// " ++ [27880; 37322]%N ++ runes_of_ascii "
+  	) match
+
+crc
+
+    as packetx {65535
+    :
+
+body
+    ,
+	65535 : 
+T , }
+	,  //x
+	stringy ,
+    u32 
+roots
+    ,
+uint32
+body
+    ,
+	}
+
+")).
+Eval vm_compute in ("<<<M1252>>>" ++ check (runes_of_ascii "MetaData packetx	{
+    MetaDataX zchar , calculatedFrom i64_ ,char[] BodyLength , zchar[ 4294967296 // packet A { u8 x, }
+] MetaDataX``
+, int BodyLength `
+`, i64 i64_ , }
+options
+    { u8x= u32 ; } MetaData rootA{
+zchar[ 4294967296 ] roots
+`doc` ,
+char[ 0123456789 ]
+    // a // b
+    uint8x `" ++ [233]%N ++ runes_of_ascii "`
+    , Z9_ len	`u8 x,`	, }
+")).
+Eval vm_compute in ("<<<M1961>>>" ++ check (runes_of_ascii "MetaData
+    u { }  options {
+// c
+// @lengthOf(
+float = int8 ;rootA =false ; As =	int16 // `tick` ""quote"" 'q'
+repeatCount
+    // trailing space 
+    =
+    int16
+; u8x u8x =
+    //	t
+    '\x00' ; } options	{
+    repeatCount
+= 0
+u128
+    //
+    = false ; i64_
+// trailing space 
+// `tick` ""quote"" 'q'
+= '0' ; //	t
+}
+")).
+Eval vm_compute in ("<<<M1991>>>" ++ check (runes_of_ascii "MetaData
+    u { }  options {
+// c
+// @lengthOf(
+float = int8 ;rootA =false ; As =	int16 // `tick` ""quote"" 'q'
+repeatCount
+    // trailing space 
+    =
+    int16
+; u8x =
+    //	t
+    '\x00' ; } options	{ {
+    repeatCount
+= 0
+u128
+    //
+    = false ; i64_
+// trailing space 
+// `tick` ""quote"" 'q'
+= '0' ; //	t
+}
+")).
+Eval vm_compute in ("<<<M769>>>" ++ check (runes_of_ascii "
+packet i8i8 { match tag
+as  i8i8
+    { """ ++ [28040; 24687]%N ++ runes_of_ascii """ : pack ,
+3
+: rootA , [	1, //	t
+3
+]:falsey, }  ,
+// " ++ [128512]%N ++ runes_of_ascii " emoji
+// trailing space 
+zchar[
+10 ]string_ , // @lengthOf(
+}packet falsey{string chars ,
+uint8x
+,@lengthOf( packetx ) char[]
+Packet, }MetaData a1 {
+chars roots
+    //
+    `crlf
+line` , /// triple
+asx zchar ,}
+")).
+Eval vm_compute in ("<<<M1987>>>" ++ check (runes_of_ascii "MetaData
+    u { }  options {
+// c
+// @lengthOf(
+float = int8 ;rootA =false ; As =	int16 // `tick` ""quote"" 'q'
+repeatCount
+    // trailing space 
+    =
+    int16
+; u8x =
+    //	t
+    '\x00' ; } {	options
+    repeatCount
+= 0
+u128
+    //
+    = false ; i64_
+// trailing space 
+// `tick` ""quote"" 'q'
+= '0' ; //	t
+}
+")).
+Eval vm_compute in ("<<<M1980>>>" ++ check (runes_of_ascii "MetaData
+    u { }  options {
+// c
+// @lengthOf(
+float = int8 ;rootA =false ; As =	int16 // `tick` ""quote"" 'q'
+repeatCount
+    // trailing space 
+    =
+    int16
+; u8x =
+    //	t
+    '\x00' ;  options	{
+    repeatCount
+= 0
+u128
+    //
+    = false ; i64_
+// trailing space 
+// `tick` ""quote"" 'q'
+= '0' ; //	t
+}
+")).
+Eval vm_compute in ("<<<M1950>>>" ++ check (runes_of_ascii "MetaData
+    u { }  options {
+// c
+// @lengthOf(
+float = int8 ;rootA =false ; As =	int16 // `tick` ""quote"" 'q'
+repeatCount
+    // trailing space 
+    =
+    
+; u8x =
+    //	t
+    '\x00' ; } options	{
+    repeatCount
+= 0
+u128
+    //
+    = false ; i64_
+// trailing space 
+// `tick` ""quote"" 'q'
+= '0' ; //	t
+}
+")).
+Eval vm_compute in ("<<<M4290>>>" ++ check (runes_of_ascii "//	t
+packet crc {
+}
+
+MetaData len {
+    stringy body `line1
+    line2`,
+    u16 crc,//
+    zchar[007] Z9_,
+    Header T,
+}
+
+packet stringy {
+    @lengthOf(u8x)
+    match A as BodyLength {
+        ""{,}"" : o,
+        // " ++ [128512]%N ++ runes_of_ascii " emoji
+    },
+    repeat zchar[255] packetx,
+    A `" ++ [233]%N ++ runes_of_ascii "`,
+    BodyLength msg_type,
+}")).
+Eval vm_compute in ("<<<M188>>>" ++ check (runes_of_ascii "packet options1 {// " ++ [128512]%N ++ runes_of_ascii " emoji
+@calculatedFrom( ""abc""
+) //
+repeat BodyLength , a1
+@lengthOf(
+    // trailing space 
+    i8i8
+    // " ++ [128512]%N ++ runes_of_ascii " emoji
+    ) ,
+    } packet	asx
+    {char[ 0] o`crlf
+line`
+,char[] options1 `crlf
+line`
+,
+@tag( 42 )
+    repeat Foo  ,
+asx @calculatedFrom(
+    ""`tick`"") ,}")).
+Eval vm_compute in ("<<<M3209>>>" ++ check (runes_of_ascii "// top
+packet
+    // c0
+metadata
+    // c1
+{
+    // c2
+Logon
+    // c3
+{
+    // c4
+A
+    // c5
+`" ++ [28040; 24687; 31867; 22411]%N ++ runes_of_ascii "`
+    // c6
+,
+    // c7
+tag
+    // c8
+o
+    // c9
+,
+    // c10
+}
+    // c11
+,
+    // c12
+zchar
+    // c13
+len
+    // c14
+`// not a comment`
+    // c15
+,
+    // c16
+}
+    // c17
+")).
+Eval vm_compute in ("<<<M491>>>" ++ check (runes_of_ascii "root packet
+    options1 {
+    // a // b
+    zchar[
+    // `tick` ""quote"" 'q'
+    1 ] a1 `u8 x,` ,
+    }MetaData calculatedFrom {}
+    root  packet i64_	{@tag( 10 ) @leftPad	( // c
+' '
+// a // b
+// a // b
+) int32 Packet@calculatedFrom( // packet A { u8 x, }
+""1"")
+,}
+")).
+Eval vm_compute in ("<<<M1618>>>" ++ check (runes_of_ascii "packet
+//	t
+// trailing space 
+_x {
+// packet A { u8 x, }
+// c
+char[
+3
+    ] u8x @lengthOf(
+u8x ) , @calculatedFrom(""" ++ [128512]%N ++ runes_of_ascii """ // @lengthOf(
+)
+i16	Foo
+@lengthOf(	string_
+    )`doc`	, repeat	i64 metadata , @lengthOf( string_ string_
+) i8 // c
+u  `line1
+line2`	,
+}
+")).
+Eval vm_compute in ("<<<M577>>>" ++ check (runes_of_ascii "packet int {
+int64 msg_type @calculatedFrom(// trailing space 
+""\" ++ [233]%N ++ runes_of_ascii """ ),
+} options {
+packetx = false tag = // trailing space 
+true
+    u128= i32 ; msg_type= true
+pack = u32 ;
+    } options {
+    Packet
+= char[] ; } root packet roots{ zchar[ 42]
+float ,}
+")).
+Eval vm_compute in ("<<<M1495>>>" ++ check (runes_of_ascii "packet
+//	t
+// trailing space 
+i16 {
+// packet A { u8 x, }
+// c
+char[
+3
+    ] u8x @lengthOf(
+u8x ) , @calculatedFrom(""" ++ [128512]%N ++ runes_of_ascii """ // @lengthOf(
+)
+i16	Foo
+@lengthOf(	string_
+    )`doc`	, repeat	i64 metadata , @lengthOf( string_
+) i8 // c
+u  `line1
+line2`	,
+}
+")).
+Eval vm_compute in ("<<<M1554>>>" ++ check (runes_of_ascii "packet
+//	t
+// trailing space 
+_x {
+// packet A { u8 x, }
+// c
+char[
+3
+    ] u8x @lengthOf(
+u8x ) , @calculatedFrom(""" ++ [128512]%N ++ runes_of_ascii """ // @lengthOf(
+i16
+)	Foo
+@lengthOf(	string_
+    )`doc`	, repeat	i64 metadata , @lengthOf( string_
+) i8 // c
+u  `line1
+line2`	,
+}
+")).
+Eval vm_compute in ("<<<M1550>>>" ++ check (runes_of_ascii "packet
+//	t
+// trailing space 
+_x {
+// packet A { u8 x, }
+// c
+char[
+3
+    ] u8x @lengthOf(
+u8x ) , @calculatedFrom(as // @lengthOf(
+)
+i16	Foo
+@lengthOf(	string_
+    )`doc`	, repeat	i64 metadata , @lengthOf( string_
+) i8 // c
+u  `line1
+line2`	,
+}
+")).
+Eval vm_compute in ("<<<M1595>>>" ++ check (runes_of_ascii "packet
+//	t
+// trailing space 
+_x {
+// packet A { u8 x, }
+// c
+char[
+3
+    ] u8x @lengthOf(
+u8x ) , @calculatedFrom(""" ++ [128512]%N ++ runes_of_ascii """ // @lengthOf(
+)
+i16	Foo
+@lengthOf(	string_
+    )`doc`	, {	i64 metadata , @lengthOf( string_
+) i8 // c
+u  `line1
+line2`	,
+}
+")).
+Eval vm_compute in ("<<<M227>>>" ++ check (runes_of_ascii "
+root packet
+rootA { } root packet
+// a // b
+// trailing space 
+_x // " ++ [27880; 37322]%N ++ runes_of_ascii "
+{
+    i64_, // a // b
+} MetaData options1{ // `tick` ""quote"" 'q'
+a1 float `crlf
+line`
+,
+    u8x
+falsey // " ++ [128512]%N ++ runes_of_ascii " emoji
+`" ++ [233]%N ++ runes_of_ascii "`,
+f32a MetaDataX,int64 u8x, } packet f32a {}
+")).
+Eval vm_compute in ("<<<M3706>>>" ++ check (runes_of_ascii "options {
+    zchar = ' ';
+    MetaDataX = zchar[255];
+}
+
+options {
+    options1 = ""1"";
+}
+
+MetaData u128 {
+    char[] leftPad,
+}
+
+options {
+    a1 = 255;
+}
+
+packet As {
+    repeat char[007] A,
+    f32a @lengthOf(calculatedFrom),
+}")).
+Eval vm_compute in ("<<<M4367>>>" ++ check (runes_of_ascii "// c
+packet BodyLength {
+    u {
+        char[007] i8i8 `a\`,
+        pack {
+            match charz as Header {
+                ""\n"" : leftPad,
+            },
+        },
+        string u8x @calculatedFrom(""" ++ [233]%N ++ runes_of_ascii "t" ++ [233]%N ++ runes_of_ascii """),
+    },
+}")).
+Eval vm_compute in ("<<<M4061>>>" ++ check (runes_of_ascii "options {
+    // packet A { u8 x, }
+    rootA = true;
+    chars = true// packet A { u8 x, }
+}
+
+options {
+    lengthOf = 3
+    trueish = ' ';
+    /// triple
+    crc = true;
+    rootA = ""it's"";
+    chars = int32;//x
+}")).
+Eval vm_compute in ("<<<M388>>>" ++ check (runes_of_ascii "packet falsey
+    //
+    { @calculatedFrom( // @lengthOf(
+""`tick`"" )
+Pad
+/// triple
+// c
+{
+match
+pack as roots { """ ++ [233]%N ++ runes_of_ascii "t" ++ [233]%N ++ runes_of_ascii """ : u ,
+42: //
+As""packet"" : Logon,
+}
+    ,}
+    , } options
+{ } root
+    packet stringy { }")).
+Eval vm_compute in ("<<<M456>>>" ++ check (runes_of_ascii "MetaData Foo
+{
+zchar[ 10 ]
+i8i8 //	t
+,
+    zchar[	1 ]  zchar  ,  zchar lengthOf, string//
+metadata `tab	here` , matchKey  x// " ++ [128512]%N ++ runes_of_ascii " emoji
+, /// triple
+f32
+    // @lengthOf(
+    leftPad `it's` ,
+    // c
     }")).
 Eval vm_compute in ("<<<M1729>>>" ++ check (runes_of_ascii "options { trueish = ""`tick`"" ; string_= """ ++ [233]%N ++ runes_of_ascii "t" ++ [233]%N ++ runes_of_ascii """
     // c
@@ -1981,54 +2259,11 @@ packet Logon {
 u16 string_ `u8 x,` ,
 }
 ")).
-Eval vm_compute in ("<<<M1766>>>" ++ check (runes_of_ascii "options { trueish = ""`tick`"" ; string_= """ ++ [233]%N ++ runes_of_ascii "t" ++ [233]%N ++ runes_of_ascii """
+Eval vm_compute in ("<<<M1756>>>" ++ check (runes_of_ascii "options { trueish = ""`tick`"" ; string_= """ ++ [233]%N ++ runes_of_ascii "t" ++ [233]%N ++ runes_of_ascii """
     // c
     } root
     packet body { stringy @calculatedFrom(
-""a	b"" ) `line1
-line2`  }
-packet Logon {
-    @leftPad(
-    ' ' ) //	t
-u16 string_ `u8 x,` ,
-}
-")).
-Eval vm_compute in ("<<<M625>>>" ++ check (runes_of_ascii "
-root	packet i64_ { roots a1	, @calculatedFrom(""`tick`"" )
-i64 //
-float `it's` ,@calculatedFrom(
-""\n"" ) @calculatedFrom( ""1"" ) @tag(
-    10 )	f64
-trueish
-`" ++ [28040; 24687; 31867; 22411]%N ++ runes_of_ascii "`	, trueish @calculatedFrom( ""\n"" ) ,}")).
-Eval vm_compute in ("<<<M3540>>>" ++ check (runes_of_ascii "// top
-root // c0
-packet
-    // c1
-P // c2a
-  // c2b
-{ // c3a
-  // c3b
-hdr { // c5a
-  // c5b
-u8 // c6a
-  // c6b
-a ,
-    // c8
-} // c9a
-  // c9b
-, u8 // c11a
-  // c11b
-x
-    // c12
-,
-    // c13
-} ")).
-Eval vm_compute in ("<<<M1746>>>" ++ check (runes_of_ascii "options { trueish = ""`tick`"" ; string_= """ ++ [233]%N ++ runes_of_ascii "t" ++ [233]%N ++ runes_of_ascii """
-    // c
-    } root
-    packet body { stringy 
-""a	b"" ) `line1
+""a	b""  `line1
 line2` , }
 packet Logon {
     @leftPad(
@@ -2036,104 +2271,114 @@ packet Logon {
 u16 string_ `u8 x,` ,
 }
 ")).
-Eval vm_compute in ("<<<M372>>>" ++ check (runes_of_ascii "MetaData // " ++ [128512]%N ++ runes_of_ascii " emoji
-chars { int64 metadata	,
-char[00] stringy
-//
-// c
+Eval vm_compute in ("<<<M193>>>" ++ check (runes_of_ascii "MetaData
+    Header { }MetaData Logon {// trailing space 
+int32 falsey ,// " ++ [27880; 37322]%N ++ runes_of_ascii "
+packetx
+_x ,
+char[] Logon`two words`
 ,
-    f64 Foo ,} options {	} options {As = char[ 4294967296
-]A =
-""x y""options1=	float32 Logon =  '\x00' ;	}
+    matchKey packetx ,
+    u32 u // packet A { u8 x, }
+,	i64 float `it's`
+, }
 ")).
-Eval vm_compute in ("<<<M4220>>>" ++ check (runes_of_ascii "packet A {
-    u8 a,
+Eval vm_compute in ("<<<M919>>>" ++ check (runes_of_ascii "MetaData float
+{ // " ++ [27880; 37322]%N ++ runes_of_ascii "
+} root packet	Header {float  {
+i32 u8x @lengthOf( a1 )
+`u8 x,` , }
+, char[] i64_
+@calculatedFrom( ""a\\"" )
+`" ++ [233]%N ++ runes_of_ascii "`,
+    float64	packetx `{ , }`,
+    } // packet A { u8 x, }")).
+Eval vm_compute in ("<<<M138>>>" ++ check (runes_of_ascii "options
+{ MetaDataX=""\n""
+    /// triple
+    stringy = 4294967296 ; Packet=
+    false	; As = ""a\\"" /// triple
+; stringy = ' ';} options {
 }
+    MetaData roots {
+stringy MetaDataX
+    , }")).
+Eval vm_compute in ("<<<M591>>>" ++ check (runes_of_ascii "options { packetx =' '
+}root	packet i64_ {string // trailing space 
+Foo , @tag(// " ++ [27880; 37322]%N ++ runes_of_ascii "
+3	) u128 @calculatedFrom( ""\" ++ [233]%N ++ runes_of_ascii """ )	`
+` , repeat char[//
+00  ] Logon ,repeat crc lengthOf`a\` , }
+")).
+Eval vm_compute in ("<<<M1219>>>" ++ check (runes_of_ascii "
+packet u128{@leftPad //x
+( ' '
+    ) @tag( 3 ) @calculatedFrom(
+    /// triple
+    ""abc"" ) repeat A
+    ,  } packet
+x {
+u16 Z9_
+`u8 x,` // c
+, }packet	int { Logon	chars , }")).
+Eval vm_compute in ("<<<M156>>>" ++ check (runes_of_ascii "packet asx {
+    }
+    // packet A { u8 x, }
+    options
+    { options1
+= float64 leftPad
+=true ; MetaDataX =char[00] ; roots=false }// " ++ [128512]%N ++ runes_of_ascii " emoji
+packet string_{
+    }
 
-packet B {
-    u16 b,
-}
+")).
+Eval vm_compute in ("<<<M3979>>>" ++ check (runes_of_ascii "
 
-root packet P {
-    u8 K1,
-    u8 K2,
-    match K1 as M1 {
-        1 : A,
-    },
-    match K2 as M2 {
-        1 : B,
-    },
-}")).
-Eval vm_compute in ("<<<M4583>>>" ++ check (runes_of_ascii "packet body
-	{ @leftPad
+  options	{
+	} root  packet	i8i8{ }
+    packet
+asx  { f64 pack
+    ,
 
-    ( )	zchar[0
-]
-
-    metadata ,	chars
-{ 
-repeat  
-      // " ++ [128512]%N ++ runes_of_ascii " emoji
-u8 string_
-	, 
-string
-options1
-	@calculatedFrom(
-""" ++ [28040; 24687]%N ++ runes_of_ascii """  )
-,
-} ,
-}")).
-Eval vm_compute in ("<<<M3860>>>" ++ check (runes_of_ascii "MetaData	tag
-
-{
-char[  3 
-
-    // trailing space 
-	]  u8x
-	,packetx 
-a1
-
-,}// packet A { u8 x, }
-
-  MetaData
-
-    chars
-
-    { i16
-    uint8x`tab	here` ,	} ")).
-Eval vm_compute in ("<<<M1835>>>" ++ check (runes_of_ascii "options { trueish = ""`tick`"" ; string_= """ ++ [233]%N ++ runes_of_ascii "t" ++ [233]%N ++ runes_of_ascii """
+    @calculatedFrom(	""a\\""	) zchar[ 255 
+] rootA`it's`
     // c
-    } root
-    packet body { stringy @calculatedFrom(
-""a	b"" ) `line1
-line2` , }
-packet Logon {
-    @lef")).
-Eval vm_compute in ("<<<M1576>>>" ++ check (runes_of_ascii "packet
-//	t
-// trailing space 
-_x {
+      , 	 // " ++ [27880; 37322]%N ++ runes_of_ascii "
+} // " ++ [27880; 37322]%N ++ runes_of_ascii "
+")).
+Eval vm_compute in ("<<<M2152>>>" ++ check (runes_of_ascii "options{
+_x
+= true
+} options
+{ o	= /// triple
+false
+    ; chars
+= ""\n"" ""`tick`"" root packet	Pad
+/// triple
 // packet A { u8 x, }
-// c
-char[
-3
-    ] u8x @lengthOf(
-u8x ) , @calculatedFrom(""" ++ [128512]%N ++ runes_of_ascii """ // @lengthOf(
-)
-i16	Foo
-@lengthOf(")).
-Eval vm_compute in ("<<<M4094>>>" ++ check (runes_of_ascii "// c
-packet x {
-    @lengthOf(metadata)
-    repeat lengthOf lengthOf,
-    a1 {
-        trueish,// c
-        repeat MetaDataX,
-    },
-    zchar[42] rootA,
+{	chars
+    // a // b
+    ,}")).
+Eval vm_compute in ("<<<M4322>>>" ++ check (runes_of_ascii "MetaData As {
+    // " ++ [128512]%N ++ runes_of_ascii " emoji
+    // @lengthOf(
+    a1 Pad,
+    zchar[00] body `// not a comment`,
+    crc uint8x `// not a comment`,
+    uint32 packetx ``,
 }")).
-Eval vm_compute in ("<<<M2400>>>" ++ check (runes_of_ascii "// c
-packet x { @lengthOf( metadata , repeat lengthOf
+Eval vm_compute in ("<<<M2343>>>" ++ check (runes_of_ascii "// c
+packet x { @lengthOf( metadata ) repeat lengthOf
+,a1{
+trueish	,// c
+repeat//	t
+MetaDataX , } , zchar[
+    42	] rootA // `tick` ""quote"" 'q'
+,
+    '}
+")).
+Eval vm_compute in ("<<<M2350>>>" ++ check (runes_of_ascii "// c
+packet x { metadata @lengthOf( ) repeat lengthOf
 ,a1{
 trueish	,// c
 repeat//	t
@@ -2142,420 +2387,412 @@ MetaDataX , } , zchar[
 ,
     }
 ")).
-Eval vm_compute in ("<<<M920>>>" ++ check (runes_of_ascii "packet
-/// triple
-/// triple
-As
-{ }
-MetaData charz{
-i64 falsey ,A msg_type, char[ 3 ]
-trueish `say ""hi""` ,float32 calculatedFrom
-    ,
-string i8i8, }
+Eval vm_compute in ("<<<M2409>>>" ++ check (runes_of_ascii "// c
+packet x { @lengthOf( metadata ) repeat lengthOf
+,a1{
+trueish	,// c
+repeat//	t
+MetaDataX  } , zchar[
+    42	] rootA // `tick` ""quote"" 'q'
+,
+    }
 ")).
-Eval vm_compute in ("<<<M673>>>" ++ check (runes_of_ascii "packet
-A //
-{
-@tag(255
-) @lengthOf(
-// packet A { u8 x, }
-//
-x
-    )  u `crlf
-line`,
-repeat
-body { zchar[ 00
-    //	t
-    ]  crc`a\`
-    , }// c
-, }")).
-Eval vm_compute in ("<<<M2147>>>" ++ check (runes_of_ascii "options{
+Eval vm_compute in ("<<<M2181>>>" ++ check (runes_of_ascii "options{
 _x
 = true
 } options
 { o	= /// triple
 false
     ; chars
-= ( } root packet	Pad
-/// triple
-// packet A { u8 x, }
-{	chars
-    // a // b
-    ,}")).
-Eval vm_compute in ("<<<M2134>>>" ++ check (runes_of_ascii "options{
-_x
-= true
-} options
-{ o	= /// triple
-false
-    ; 
 = ""\n"" } root packet	Pad
 /// triple
 // packet A { u8 x, }
 {	chars
     // a // b
-    ,}")).
-Eval vm_compute in ("<<<M3688>>>" ++ check (runes_of_ascii "packet A {
+    },")).
+Eval vm_compute in ("<<<M398>>>" ++ check (runes_of_ascii "root packet chars {
+@lengthOf( a1
+// packet A { u8 x, }
+//	t
+) Z9_ msg_type `it's` , @lengthOf(	calculatedFrom ) //
+repeat calculatedFrom `{ , }`
+, }")).
+Eval vm_compute in ("<<<M2394>>>" ++ check (runes_of_ascii "// c
+packet x { @lengthOf( metadata )  lengthOf
+,a1{
+trueish	,// c
+repeat//	t
+MetaDataX , } , zchar[
+    42	] rootA // `tick` ""quote"" 'q'
+,
+    }
+")).
+Eval vm_compute in ("<<<M2371>>>" ++ check (runes_of_ascii "// c
+packet x { } metadata ) repeat lengthOf
+,a1{
+trueish	,// c
+repeat//	t
+MetaDataX , } , zchar[
+    42	] rootA // `tick` ""quote"" 'q'
+,
+    }
+")).
+Eval vm_compute in ("<<<M4075>>>" ++ check (runes_of_ascii "packet A {
     match k as n {
         [
-            007, 66, 9, ""a"", ""bb"",
-            ""d"", ""e"", ""g"", ""h""
+            ""a"", ""bb"", 007, ""d"", ""e"",
+            66, ""g"", ""h""
         ] : B,
         2 : C,
     },
 }")).
-Eval vm_compute in ("<<<M176>>>" ++ check (runes_of_ascii "
-packet Foo {	} packet MetaDataX
-    {char[]	Logon
-// trailing space 
-//
-,  }root packet MetaDataX { match Z9_ as zchar{
-7 : zchar , } , }")).
-Eval vm_compute in ("<<<M3677>>>" ++ check (runes_of_ascii "packet
+Eval vm_compute in ("<<<M3582>>>" ++ check (runes_of_ascii "
 
-    A
-    {	Inner
-    {match
+  packet A  {	u8
 
-k
-
-as
-    n{  [
-	1
-
-    ,22	,
-    007
-,
-
-    4 ]
-    :
-    B
-
-    ,
-
-}
-
-    ,
-} , 
-}")).
-Eval vm_compute in ("<<<M4561>>>" ++ check (runes_of_ascii "
+    a
+    ,} 
 packet
-    metadata
-{
-    Logon
+    B
+{ 
+u16 b,}
 
-{ A`" ++ [28040; 24687; 31867; 22411]%N ++ runes_of_ascii "`	,
-
-tag o , }
-
+    root packet 
+P 
+{ u8 
+K ,
+match K as M
+{ 
+1  :
+A
+	,1
+:B , }
     ,
-    zchar
-
-len  `// not a comment`
-
-    , 
-        // c
 	}
 ")).
-Eval vm_compute in ("<<<M1108>>>" ++ check (runes_of_ascii "options{
-i8i8 = '0';
-    Header = ""packet"" ;
-float  ='0'
-// c
-// a // b
-; MetaDataX=int32	;
-    i64_ = zchar[ 255
-    ]
-; }")).
-Eval vm_compute in ("<<<M3548>>>" ++ check (runes_of_ascii "packet B {
-    u8 a,
-}
-root packet P {
-    u8 K,
-    match K as Body {
-        1 : B,
-    },
-    u16 L @lengthOf(Body),
-}
-")).
-Eval vm_compute in ("<<<M3333>>>" ++ check (runes_of_ascii "root packet matchKey { zchar[ 3 ] pack @calculatedFrom( ""a	b"" )
-// c
-`doc` , } options { } MetaData A { int8 msg_type , }")).
-Eval vm_compute in ("<<<M3977>>>" ++ check (runes_of_ascii "
-packet
-MetaDataX	{
-repeat tag
-    i64_ 
-, @calculatedFrom(
-""packet""
-	) 
-// trailing space 
-	Packet `tab	here`	, }
-
-")).
-Eval vm_compute in ("<<<M1312>>>" ++ check (runes_of_ascii "options{ charz =
-    0 ; rootA = false
-;
-// @lengthOf(
+Eval vm_compute in ("<<<M1770>>>" ++ check (runes_of_ascii "options { trueish = ""`tick`"" ; string_= """ ++ [233]%N ++ runes_of_ascii "t" ++ [233]%N ++ runes_of_ascii """
+    // c
+    } root
+    packet body { stringy @calculatedFrom(
+""a	b"" ) `line1
+line2`")).
+Eval vm_compute in ("<<<M2178>>>" ++ check (runes_of_ascii "options{
+_x
+= true
+} options
+{ o	= /// triple
+false
+    ; chars
+= ""\n"" } root packet	Pad
+/// triple
 // packet A { u8 x, }
-As
-//	t
-//x
-=
-    true ; Pad = '\x00' }
-")).
-Eval vm_compute in ("<<<M1457>>>" ++ check (runes_of_ascii "
+{")).
+Eval vm_compute in ("<<<M1435>>>" ++ check (runes_of_ascii "
 packet
-    falsey { Header@calculatedFrom(""packet""  ) , char[
-    0123456789 ] packetx
-     } // `tick` ""quote"" 'q'")).
-Eval vm_compute in ("<<<M1415>>>" ++ check (runes_of_ascii "
-packet
-    falsey { }@calculatedFrom(""packet""  ) , char[
+    falsey { Header@calculatedFrom(""packet""  ) zchar[ char[
     0123456789 ] packetx
     , } // `tick` ""quote"" 'q'")).
-Eval vm_compute in ("<<<M1468>>>" ++ check (runes_of_ascii "
-packet
-    falsey { Header@calculatedFrom(""packet""  ) , char[
-    0123456789 ] packetx
-    , } // `tick` ""quo")).
-Eval vm_compute in ("<<<M2964>>>" ++ check (runes_of_ascii "packet A {
-  match k as n {
-    [""a"", ""bb"", ""c c"", ""d"", ""e"", ""f"", ""g"", ""h"", ""i"", ""j""] : B,
-    2 : C
-  },
-}")).
-Eval vm_compute in ("<<<M107>>>" ++ check (runes_of_ascii "
-packet a1{ match /// triple
-T as pack
-{007 : Header ,} , calculatedFrom	, } MetaData
-options1
-    { }")).
-Eval vm_compute in ("<<<M1417>>>" ++ check (runes_of_ascii "
-packet
-    falsey { Header""packet""  ) , char[
-    0123456789 ] packetx
-    , } // `tick` ""quote"" 'q'")).
-Eval vm_compute in ("<<<M2983>>>" ++ check (runes_of_ascii "packet A {
-  match k as n {
-    [1, 22, ""c c"", 4, 5, ""f"", 7, 8, ""i"", 10, 11] : B,
-    2 : C
-  },
-}")).
-Eval vm_compute in ("<<<M4060>>>" ++ check (runes_of_ascii "
-packet
-
-metadata {
-@lengthOf(
-
-Header
-    )// " ++ [27880; 37322]%N ++ runes_of_ascii "
-	float32
-
-options1
-
-    `line1
-line2`, }
-")).
-Eval vm_compute in ("<<<M2247>>>" ++ check (runes_of_ascii "options
-{ } options { BodyLength= u16 Header Header= f64 ; u128 =
-    true
-    ; } // a // b")).
-Eval vm_compute in ("<<<M4073>>>" ++ check (runes_of_ascii "
-packet  Inner {  u8 a  ,  }
-root
-packet 
-P {
-
-repeat
-    Inner
-	items
-
-    , 
-u8 x  , }")).
-Eval vm_compute in ("<<<M3269>>>" ++ check (runes_of_ascii "MetaData // c
-float { float64 charz `
-` , } root packet chars { @rightPad ( '0' ) Foo , }")).
-Eval vm_compute in ("<<<M3301>>>" ++ check (runes_of_ascii "MetaData float { float64 charz `
-` , } root packet chars { @rightPad ( '0' ) Foo // c
-, }")).
-Eval vm_compute in ("<<<M3512>>>" ++ check (runes_of_ascii "packet chars { } packet MetaDataX { @tag( 42 ) i16 string_ , repeat
+Eval vm_compute in ("<<<M3327>>>" ++ check (runes_of_ascii "root packet matchKey { zchar[ 3 ] pack
 // c
-x `say ""hi""` , }")).
-Eval vm_compute in ("<<<M370>>>" ++ check (runes_of_ascii "MetaData falsey {
-//x
-//	t
-char[ /// triple
-65535]Packet `{ , }` , // @lengthOf(
-} //x")).
-Eval vm_compute in ("<<<M535>>>" ++ check (runes_of_ascii "packet chars
-    //
-    { i8 body @lengthOf( crc), repeat char[] zchar , body
-`
-` , }")).
-Eval vm_compute in ("<<<M3219>>>" ++ check (runes_of_ascii "packet metadata { Logon // c
-{ A `" ++ [28040; 24687; 31867; 22411]%N ++ runes_of_ascii "` , tag o , } , zchar len `// not a comment` , }")).
-Eval vm_compute in ("<<<M3747>>>" ++ check (runes_of_ascii "options {
-    A = 42;
-    body = false;
-    options1 = 0123456789;
-    As = char[7];
-}")).
-Eval vm_compute in ("<<<M3439>>>" ++ check (runes_of_ascii "packet o { repeat Logon uint8x // c
-, } options { asx = zchar[ 3 ] stringy = '\x00' }")).
-Eval vm_compute in ("<<<M2778>>>" ++ check (runes_of_ascii "char[] @calculatedFrom( int32 string match false MetaData @tag( i16 } repeat : uint8")).
-Eval vm_compute in ("<<<M381>>>" ++ check (runes_of_ascii "/// triple
-MetaData zchar // " ++ [128512]%N ++ runes_of_ascii " emoji
-{ int32 pack
-// trailing space 
-//	t
-,
-    }
-")).
-Eval vm_compute in ("<<<M3416>>>" ++ check (runes_of_ascii "MetaData body { i64 pack `it's` , } packet stringy { int16 // c
-calculatedFrom , }")).
-Eval vm_compute in ("<<<M4065>>>" ++ check (runes_of_ascii "  root  packet
-	P
-	{ repeat
-
-    string
-ss 
-,
-    repeat
-	u16  ns
-
-    , }
-")).
-Eval vm_compute in ("<<<M2904>>>" ++ check (runes_of_ascii "packet A {
-  match k as n {
-    [""a"", 22, ""c c"", 4, ""e""] : B
-    2 : C
-  },
-}")).
-Eval vm_compute in ("<<<M4328>>>" ++ check (runes_of_ascii "options
-
-    {stringy = 7 
-; crc
-= ""x y"";}
-	MetaData
-
-f32a {
-
-    }
-
-")).
-Eval vm_compute in ("<<<M760>>>" ++ check (runes_of_ascii "packet	i64_ { }options{
-    } options { MetaDataX = ""CRC32""} // a // b")).
-Eval vm_compute in ("<<<M2794>>>" ++ check (runes_of_ascii "@lengthOf( options string u16 as ] i16 ( uint32 , options 7 [ uint16")).
-Eval vm_compute in ("<<<M4313>>>" ++ check (runes_of_ascii "packet A {
-    match k as n {
-        1 : B,
-        // d
+@calculatedFrom( ""a	b"" ) `doc` , } options { } MetaData A { int8 msg_type , }")).
+Eval vm_compute in ("<<<M3757>>>" ++ check (runes_of_ascii "packet A {
+    Inner {
+        u8 x `a
+        b`,
+        Deep {
+            u8 y `a
+            b`,
+        },
     },
 }")).
-Eval vm_compute in ("<<<M1909>>>" ++ check (runes_of_ascii "MetaData
-    u { }  options {
-// c
-// @lengthOf(
-float = int8 ;")).
-Eval vm_compute in ("<<<M3023>>>" ++ check (runes_of_ascii "MetaData M {
-    u8 x `a
-    b
-  c`,
-    T t `a
-    b
-  c`,
-}")).
-Eval vm_compute in ("<<<M2765>>>" ++ check (runes_of_ascii "@tag( zchar[ @tag( false @leftPad options @tag( repeat f32")).
-Eval vm_compute in ("<<<M4205>>>" ++ check (runes_of_ascii "root 
-  // c
+Eval vm_compute in ("<<<M1480>>>" ++ check (runes_of_ascii "
 packet
-    u128 
+    falsey { Header@calculatedFrom(""packet""  ) , char[
+    0123456789 ] pa<cketx
+    , } // `tick` ""quote"" 'q'")).
+Eval vm_compute in ("<<<M3022>>>" ++ check (runes_of_ascii "packet A {
+    Inner {
+        u8 x `a
+    b
+  c`,
+        Deep {
+            u8 y `a
+    b
+  c`,
+        },
+    },
+}")).
+Eval vm_compute in ("<<<M3743>>>" ++ check (runes_of_ascii "
+
+  packet
+
+A
+{
+match k  as n
 {
 
-    chars 
-`it's`, }
+    [
+1	,""bb""
+,
+007 ,
+	""d"" ,
+    5
+	, ""f""  , 7
+    ]
+    :
+
+B 
+, 2
+:C  }, } ")).
+Eval vm_compute in ("<<<M808>>>" ++ check (runes_of_ascii "MetaData string_{ Header
+    u128`tab	here` ,i64 Z9_
+// " ++ [27880; 37322]%N ++ runes_of_ascii "
+/// triple
+, x matchKey
+,string
+u, f64
+    Foo, }
 
 ")).
-Eval vm_compute in ("<<<M1030>>>" ++ check (runes_of_ascii "root packet
-BodyLength{ rootA
-//x
-// " ++ [128512]%N ++ runes_of_ascii " emoji
-roots , }")).
-Eval vm_compute in ("<<<M995>>>" ++ check (runes_of_ascii "options
-{ Header
+Eval vm_compute in ("<<<M1442>>>" ++ check (runes_of_ascii "
+packet
+    falsey { Header@calculatedFrom(""packet""  ) , char[
+     ] packetx
+    , } // `tick` ""quote"" 'q'")).
+Eval vm_compute in ("<<<M3703>>>" ++ check (runes_of_ascii "packet o{ repeat
+Logon
+uint8x
+	,	}
+	options
+
+    {  asx // c
+
+=zchar[ 3
+
+]
+
+    stringy
+='\x00' }
+")).
+Eval vm_compute in ("<<<M4056>>>" ++ check (runes_of_ascii "options {
+    Packet = 4294967296;
+    i64_ = ""1"";
+    Z9_ = ""abc"";
+    options1 = ""a\\"";
+    o = 0;
+}")).
+Eval vm_compute in ("<<<M4022>>>" ++ check (runes_of_ascii "MetaData 
+body {
+    i64
+
+    pack`it's`
+, 
+  // c
+    }packet
+
+stringy{ int16	calculatedFrom 
+,} ")).
+Eval vm_compute in ("<<<M2966>>>" ++ check (runes_of_ascii "packet A {
+  match k as n {
+    [1, ""bb"", 007, ""d"", 5, ""f"", 7, ""h"", 9, ""j""] : B,
+    2 : C
+  },
+}")).
+Eval vm_compute in ("<<<M2209>>>" ++ check (runes_of_ascii "options options
+{ } options { BodyLength= u16 Header= f64 ; u128 =
+    true
+    ; } // a // b")).
+Eval vm_compute in ("<<<M1365>>>" ++ check (runes_of_ascii "MetaData x_y_z {
+    // " ++ [128512]%N ++ runes_of_ascii " emoji
+    x
+    i8i8 `// not a comment` ,pack _x, //x
+i64_ len ,
+}")).
+Eval vm_compute in ("<<<M2242>>>" ++ check (runes_of_ascii "options
+{ } options { BodyLength= u16 u16 Header= f64 ; u128 =
+    true
+    ; } // a // b")).
+Eval vm_compute in ("<<<M3275>>>" ++ check (runes_of_ascii "MetaData float { float64 // c
+charz `
+` , } root packet chars { @rightPad ( '0' ) Foo , }")).
+Eval vm_compute in ("<<<M3486>>>" ++ check (runes_of_ascii "packet
+// c
+chars { } packet MetaDataX { @tag( 42 ) i16 string_ , repeat x `say ""hi""` , }")).
+Eval vm_compute in ("<<<M3518>>>" ++ check (runes_of_ascii "packet chars { } packet MetaDataX { @tag( 42 ) i16 string_ , repeat x `say ""hi""` ,
+// c
+}")).
+Eval vm_compute in ("<<<M2249>>>" ++ check (runes_of_ascii "options
+{ } options { BodyLength= u16 float32= f64 ; u128 =
+    true
+    ; } // a // b")).
+Eval vm_compute in ("<<<M2168>>>" ++ check (runes_of_ascii "options{
+_x
+= true
+} options
+{ o	= /// triple
+false
+    ; chars
+= ""\n"" } root packet")).
+Eval vm_compute in ("<<<M3226>>>" ++ check (runes_of_ascii "packet metadata { Logon { A `" ++ [28040; 24687; 31867; 22411]%N ++ runes_of_ascii "`
+// c
+, tag o , } , zchar len `// not a comment` , }")).
+Eval vm_compute in ("<<<M2236>>>" ++ check (runes_of_ascii "options
+{ } options { BodyLength u16 Header= f64 ; u128 =
+    true
+    ; } // a // b")).
+Eval vm_compute in ("<<<M3449>>>" ++ check (runes_of_ascii "packet o { repeat Logon uint8x , } options { asx // c
+= zchar[ 3 ] stringy = '\x00' }")).
+Eval vm_compute in ("<<<M4347>>>" ++ check (runes_of_ascii "packet pack {
+    repeat As {
+        char[65535] crc `crlf
+        line`,
+    },
+}")).
+Eval vm_compute in ("<<<M2936>>>" ++ check (runes_of_ascii "packet A {
+  match k as n {
+    [1, 22, 007, 4, 5, 66, 7, 8] : B,
+    2 : C
+  },
+}")).
+Eval vm_compute in ("<<<M3702>>>" ++ check (runes_of_ascii "  // trailing space 
+
+	MetaData
+
+body
+
+    {
+int32
+MetaDataX
+,
+    As x,
+    } ")).
+Eval vm_compute in ("<<<M3956>>>" ++ check (runes_of_ascii "root packet calculatedFrom {
+    uint8 pack @lengthOf(crc) `// not a comment`,
+}")).
+Eval vm_compute in ("<<<M4537>>>" ++ check (runes_of_ascii "// trailing space 
+packet Pad {
+    @lengthOf(asx)
+    repeat char[3] u128,
+}")).
+Eval vm_compute in ("<<<M4161>>>" ++ check (runes_of_ascii "// trailing space 
+packet Header {
     // c
-    =""a	b"" ;  } // a // b")).
+    repeat char[] MetaDataX,
+}")).
+Eval vm_compute in ("<<<M4569>>>" ++ check (runes_of_ascii "packet  x
+{@rightPad
+	( ) repeat
+    roots
+	Logon
+	`doc` ,} 
+      // c")).
+Eval vm_compute in ("<<<M30>>>" ++ check (runes_of_ascii "MetaData
+T {crc /// triple
+u8x `say ""hi""` , } // `tick` ""quote"" 'q'")).
+Eval vm_compute in ("<<<M3182>>>" ++ check (runes_of_ascii "packet A {
+    match k as n {
+        1 : B,
+        // c
+    },
+}")).
+Eval vm_compute in ("<<<M1205>>>" ++ check (runes_of_ascii "MetaData stringy{ zchar[ 007 ] body /// triple
+`tab	here` , }
+")).
+Eval vm_compute in ("<<<M2747>>>" ++ check (runes_of_ascii "options int8 x_y_z i16 char[ char[] @calculatedFrom( packet =")).
+Eval vm_compute in ("<<<M4524>>>" ++ check (runes_of_ascii "  packet A{ B{ // a
+
+	u8
+	x, 	 // b
+
+} 	 // c
+	, 	 // d
+}")).
+Eval vm_compute in ("<<<M3383>>>" ++ check (runes_of_ascii "packet x { @rightPad ( ) repeat roots Logon `doc` // c
+, }")).
+Eval vm_compute in ("<<<M4554>>>" ++ check (runes_of_ascii "
+MetaData
+	u8x
+
+    { 
+msg_type matchKey
+
+,
+
+    }
+")).
+Eval vm_compute in ("<<<M583>>>" ++ check (runes_of_ascii "options {Packet =
+    255 ; f32a
+    = '0'
+T= '0' }")).
 Eval vm_compute in ("<<<M3527>>>" ++ check (runes_of_ascii "root packet P {
     repeat char cs,
     u8 x,
 }
 ")).
-Eval vm_compute in ("<<<M4564>>>" ++ check (runes_of_ascii "MetaData charz {
-    calculatedFrom leftPad,
-}")).
-Eval vm_compute in ("<<<M168>>>" ++ check (runes_of_ascii "root packet leftPad
-    { f32a	tag ,
-    }
-")).
-Eval vm_compute in ("<<<M1838>>>" ++ check (runes_of_ascii "options { trueish = ""`tick`"" ; string_= """)).
-Eval vm_compute in ("<<<M3200>>>" ++ check (runes_of_ascii "root packet u128 { chars `it's`
-// c
-, }")).
-Eval vm_compute in ("<<<M3979>>>" ++ check (runes_of_ascii "
+Eval vm_compute in ("<<<M4515>>>" ++ check (runes_of_ascii "
+packet A{
+u8 x  `d" ++ [6158]%N ++ runes_of_ascii "`
+
+    ,// c" ++ [6158]%N ++ runes_of_ascii "
+      } ")).
+Eval vm_compute in ("<<<M1426>>>" ++ check (runes_of_ascii "
 packet
-
-    A 
-{ u8 x
-    `x
-`, }
-
-")).
-Eval vm_compute in ("<<<M4530>>>" ++ check (runes_of_ascii "MetaData chars {
-    len metadata,
+    falsey { Header@calculatedFrom(")).
+Eval vm_compute in ("<<<M3150>>>" ++ check (runes_of_ascii "packet A {
+    u8 x,    // c    u8 y,
 }")).
-Eval vm_compute in ("<<<M2128>>>" ++ check (runes_of_ascii "options{
+Eval vm_compute in ("<<<M3869>>>" ++ check (runes_of_ascii "root packet A {
+    u8 x `
+        x`,
+}")).
+Eval vm_compute in ("<<<M2358>>>" ++ check (runes_of_ascii "// c
+packet x { @lengthOf( metadata )")).
+Eval vm_compute in ("<<<M71>>>" ++ check (runes_of_ascii "// " ++ [27880; 37322]%N ++ runes_of_ascii "
+packet  matchKey{
+    }
+// c
+")).
+Eval vm_compute in ("<<<M2618>>>" ++ check (runes_of_ascii "packet A { match k as n { 1 B }, }")).
+Eval vm_compute in ("<<<M1143>>>" ++ check (runes_of_ascii "
+options { options1= false
+    }")).
+Eval vm_compute in ("<<<M3698>>>" ++ check (runes_of_ascii "root packet P {
+    string s,
+}")).
+Eval vm_compute in ("<<<M3137>>>" ++ check (runes_of_ascii "packet A {
+ u8 x `d" ++ [65279]%N ++ runes_of_ascii "`, // c" ++ [65279]%N ++ runes_of_ascii "
+}")).
+Eval vm_compute in ("<<<M4076>>>" ++ check (runes_of_ascii "packet body{// @lengthOf(
+}
+")).
+Eval vm_compute in ("<<<M2190>>>" ++ check (runes_of_ascii "options{
 _x
 = true
-} options
-{ o	=")).
-Eval vm_compute in ("<<<M2830>>>" ++ check (runes_of_ascii "ytSP1+_VA;iR~$29D uo*BDXeR,dd`:e4")).
-Eval vm_compute in ("<<<M1218>>>" ++ check (runes_of_ascii "packet  options1
-    { }
-// " ++ [27880; 37322]%N ++ runes_of_ascii "
-")).
-Eval vm_compute in ("<<<M3102>>>" ++ check (runes_of_ascii "packet A {
- u8 x `d" ++ [8233]%N ++ runes_of_ascii "`, // c" ++ [8233]%N ++ runes_of_ascii "
-}")).
-Eval vm_compute in ("<<<M2755>>>" ++ check (runes_of_ascii "6p~" ++ [65533]%N ++ runes_of_ascii "d" ++ [65533; 65533]%N ++ runes_of_ascii "!&" ++ [65533; 65533]%N ++ runes_of_ascii "R" ++ [65533]%N ++ runes_of_ascii "u" ++ [65533]%N ++ runes_of_ascii "JR+a" ++ [65533; 31]%N ++ runes_of_ascii "}" ++ [65533; 65533; 23; 0; 65533; 65533]%N)).
-Eval vm_compute in ("<<<M1184>>>" ++ check (runes_of_ascii "
-MetaData matchKey
-    {	}")).
-Eval vm_compute in ("<<<M3256>>>" ++ check (runes_of_ascii "root packet // c
+} optio")).
+Eval vm_compute in ("<<<M3257>>>" ++ check (runes_of_ascii "root packet
+// c
 pack { }")).
-Eval vm_compute in ("<<<M2580>>>" ++ check (runes_of_ascii "packet A { char[ 3 y, }")).
-Eval vm_compute in ("<<<M3153>>>" ++ check (runes_of_ascii "// a// bpacket A {}")).
-Eval vm_compute in ("<<<M941>>>" ++ check (runes_of_ascii "packet packetx {
+Eval vm_compute in ("<<<M1178>>>" ++ check (runes_of_ascii "root packet //
+i64_ { }")).
+Eval vm_compute in ("<<<M2576>>>" ++ check (runes_of_ascii "packet A { x `d` y, }")).
+Eval vm_compute in ("<<<M3998>>>" ++ check (runes_of_ascii "options {
+    // a
 }")).
-Eval vm_compute in ("<<<M3953>>>" ++ check (runes_of_ascii "packet
-	float {
-	}
-")).
-Eval vm_compute in ("<<<M3101>>>" ++ check (runes_of_ascii "// c" ++ [8233]%N ++ runes_of_ascii "
+Eval vm_compute in ("<<<M3473>>>" ++ check (runes_of_ascii "MetaData
+// c
+o { }")).
+Eval vm_compute in ("<<<M3096>>>" ++ check (runes_of_ascii "// c" ++ [8232]%N ++ runes_of_ascii "
 packet A {
 }")).
-Eval vm_compute in ("<<<M2647>>>" ++ check (runes_of_ascii "MetaData M { x, }")).
+Eval vm_compute in ("<<<M2635>>>" ++ check (runes_of_ascii "packet A { } // c")).
 Eval vm_compute in ("<<<M2493>>>" ++ check (runes_of_ascii "@calculatedFrom(")).
-Eval vm_compute in ("<<<M183>>>" ++ check (runes_of_ascii "packet T
-{}
-")).
-Eval vm_compute in ("<<<M779>>>" ++ check (runes_of_ascii "options { }")).
-Eval vm_compute in ("<<<M4048>>>" ++ check (runes_of_ascii "// a
-// b")).
-Eval vm_compute in ("<<<M2504>>>" ++ check (runes_of_ascii "// a
-b")).
-Eval vm_compute in ("<<<M2427>>>" ++ check (runes_of_ascii "char[")).
-Eval vm_compute in ("<<<M3114>>>" ++ check (runes_of_ascii "// c" ++ [11]%N)).
-Eval vm_compute in ("<<<M2693>>>" ++ check (runes_of_ascii "char")).
-Eval vm_compute in ("<<<M2551>>>" ++ check (runes_of_ascii "a" ++ [160]%N ++ runes_of_ascii "b")).
-Eval vm_compute in ("<<<M2826>>>" ++ check (runes_of_ascii "Yn")).
+Eval vm_compute in ("<<<M4448>>>" ++ check (runes_of_ascii "MetaData T {
+}")).
+Eval vm_compute in ("<<<M436>>>" ++ check (runes_of_ascii " /// triple")).
+Eval vm_compute in ("<<<M2088>>>" ++ check (runes_of_ascii "options{")).
+Eval vm_compute in ("<<<M1496>>>" ++ check (runes_of_ascii "packet")).
+Eval vm_compute in ("<<<M2451>>>" ++ check (runes_of_ascii "false")).
+Eval vm_compute in ("<<<M524>>>" ++ check (runes_of_ascii " //x")).
+Eval vm_compute in ("<<<M2439>>>" ++ check (runes_of_ascii "u80")).
+Eval vm_compute in ("<<<M3733>>>" ++ check (runes_of_ascii "//x")).
+Eval vm_compute in ("<<<M2535>>>" ++ check (runes_of_ascii "_")).
